@@ -254,6 +254,135 @@ Qed.
 Lemma cnt_overflow_quiet p t es : (forall e, In e es -> quiet e = true) -> cnt "overflow" p (Conc.tag t es) = 0%Z.
 Proof. intros H. apply cnt_tag_none. intros e He. apply quiet_not_ev; [cbn; tauto|auto]. Qed.
 
+(** ** attachment / operation / last store / sources: clause helpers *)
+Definition inert (e : ev) : bool := (xplain e && negb (is_opstart e) && negb (is_resp' e))%bool.
+
+Definition X_cl (g : G) (a : Aux) (tr : trace) : Prop :=
+  TrOK tr /\ (forall t, att_at tr t = v_rec (view a t)) /\
+  (forall t e0, v_op (view a t) = Some e0 -> open_op tr t = Some e0) /\
+  (forall t r j x ok, v_val (view a t) = Some (r, j, x, ok) -> val_pat tr t r j x ok) /\
+  (forall k, src_at tr k = g_srcs g k).
+
+Lemma X_of_inv c g a tr : Inv c g a tr -> X_cl g a tr.
+Proof. intros HI. destruct HI. split; [exact i_tr|]. split; [exact i_att|]. split; [exact i_op|]. split; [exact i_val|exact i_src]. Qed.
+
+Lemma TrOK_ext tr es :
+  TrOK tr -> (forall k u e, nth_error es k = Some (u, e) -> ev_ok (tr ++ firstn k es) u e) -> TrOK (tr ++ es).
+Proof.
+  intros H Hn i u e Hi. destruct (Nat.lt_ge_cases i (List.length tr)) as [Hlt|Hge].
+  - rewrite nth_error_app1 in Hi by exact Hlt. rewrite firstn_app_le by lia. now apply H.
+  - rewrite nth_error_app2 in Hi by exact Hge. rewrite firstn_app. rewrite (firstn_all2 tr) by lia. now apply Hn.
+Qed.
+
+Lemma TrOK_xplain tr t es : TrOK tr -> (forall e, In e es -> xplain e = true) -> TrOK (tr ++ Conc.tag t es).
+Proof.
+  intros H Hx. apply TrOK_ext; [exact H|]. intros k u e Hk. apply nth_error_tag in Hk. destruct Hk as (-> & Hk).
+  apply xplain_ev_ok. apply Hx. eapply nth_error_In; eauto.
+Qed.
+
+Lemma att_upd_xplain e acc : xplain e = true -> att_upd e acc = acc.
+Proof.
+  destruct e as [k o b|n args]; [reflexivity|]. intros H. cbn. destruct args as [|r [|r2 rest]]; try reflexivity.
+  rewrite (xplain_name _ _ "g_att" H), (xplain_name _ _ "g_det" H) by (cbn; tauto). reflexivity.
+Qed.
+Lemma src_upd_xplain k e acc : xplain e = true -> src_upd k e acc = acc.
+Proof.
+  destruct e as [k0 o b|n args]; [reflexivity|]. intros H. cbn. destruct args as [|a [|b [|c0 [|d rest]]]]; try reflexivity.
+  rewrite (xplain_name _ _ "g_src" H) by (cbn; tauto). reflexivity.
+Qed.
+Lemma att_at_other tr t es t' : t' <> t -> att_at (tr ++ Conc.tag t es) t' = att_at tr t'.
+Proof.
+  intros Hne. rewrite att_at_app. generalize (att_at tr t'). unfold Conc.tag.
+  induction es as [|e es IH]; intros acc; cbn; [reflexivity|]. unfold att_step at 2. cbn.
+  destruct (Nat.eqb_spec t t'); [congruence|]. apply IH.
+Qed.
+Lemma open_op_other tr t es t' : t' <> t -> open_op (tr ++ Conc.tag t es) t' = open_op tr t'.
+Proof.
+  intros Hne. rewrite open_op_app. generalize (open_op tr t'). unfold Conc.tag.
+  induction es as [|e es IH]; intros acc; cbn; [reflexivity|]. unfold op_step at 2. cbn.
+  destruct (Nat.eqb_spec t t'); [congruence|]. apply IH.
+Qed.
+Lemma att_at_xplain tr t es t' : (forall e, In e es -> xplain e = true) -> att_at (tr ++ Conc.tag t es) t' = att_at tr t'.
+Proof.
+  intros Hx. rewrite att_at_app. generalize (att_at tr t'). unfold Conc.tag.
+  induction es as [|e es IH]; intros acc; cbn; [reflexivity|]. unfold att_step at 2. cbn.
+  rewrite att_upd_xplain by (apply Hx; now left). destruct (Nat.eqb t t'); apply IH; intros; apply Hx; now right.
+Qed.
+Lemma src_at_xplain tr t es k : (forall e, In e es -> xplain e = true) -> src_at (tr ++ Conc.tag t es) k = src_at tr k.
+Proof.
+  intros Hx. rewrite src_at_app. generalize (src_at tr k). unfold Conc.tag.
+  induction es as [|e es IH]; intros acc; cbn; [reflexivity|].
+  rewrite src_upd_xplain by (apply Hx; now left). apply IH. intros; apply Hx; now right.
+Qed.
+Definition op_fold (es : list ev) (acc : option ev) : option ev := fold_left (fun a e => op_upd e a) es acc.
+Lemma open_op_same tr t es : open_op (tr ++ Conc.tag t es) t = op_fold es (open_op tr t).
+Proof.
+  rewrite open_op_app. unfold op_fold. generalize (open_op tr t). unfold Conc.tag.
+  induction es as [|e es IH]; intros acc; cbn; [reflexivity|]. unfold op_step at 2. cbn. rewrite Nat.eqb_refl. apply IH.
+Qed.
+Lemma op_fold_inert es acc : (forall e, In e es -> inert e = true) -> op_fold es acc = acc.
+Proof.
+  unfold op_fold. revert acc. induction es as [|e es IH]; intros acc H; cbn; [reflexivity|].
+  assert (He : inert e = true) by (apply H; now left). unfold inert in He.
+  apply andb_true_iff in He. destruct He as (He & H3). apply andb_true_iff in He. destruct He as (_ & H2).
+  unfold op_upd. apply negb_true_iff in H2. apply negb_true_iff in H3. rewrite H2, H3. apply IH. intros; apply H; now right.
+Qed.
+Lemma inert_xplain e : inert e = true -> xplain e = true.
+Proof. unfold inert. intros H. apply andb_true_iff in H. destruct H as (H & _). apply andb_true_iff in H. tauto. Qed.
+
+Lemma xplain_pat_ok e : xplain e = true -> pat_ok e = true.
+Proof.
+  destruct e as [k o b|n args]; [reflexivity|]. intros H. unfold pat_ok. cbn.
+  rewrite (xplain_name _ _ "g_slot" H), (xplain_name _ _ "g_att" H), (xplain_name _ _ "g_det" H) by (cbn; tauto). reflexivity.
+Qed.
+
+Lemma val_pat_ext tr t es t' r j x ok :
+  val_pat tr t' r j x ok -> (t' <> t \/ forall e, In e es -> pat_ok e = true) ->
+  val_pat (tr ++ Conc.tag t es) t' r j x ok.
+Proof.
+  intros (g0 & Hg & Hall & Hok) Hcond. assert (Hlt : g0 < List.length tr) by (apply nth_error_Some; congruence).
+  exists g0. split; [rewrite nth_error_app1 by exact Hlt; exact Hg|]. split.
+  - intros i e Hi Hn. destruct (Nat.lt_ge_cases i (List.length tr)) as [H1|H1].
+    + rewrite nth_error_app1 in Hn by exact H1. eapply Hall; eauto.
+    + rewrite nth_error_app2 in Hn by exact H1. apply nth_error_tag in Hn. destruct Hn as (E & Hn).
+      destruct Hcond as [Hc|Hc]; [congruence|]. apply Hc. eapply nth_error_In; eauto.
+  - destruct ok as [k|]; [|exact I]. destruct Hok as (w & Hw & Hn). exists w. split; [exact Hw|].
+    rewrite nth_error_app1; [exact Hn|]. apply nth_error_Some. congruence.
+Qed.
+
+Lemma X_transfer g a tr g' a' t es :
+  X_cl g a tr -> (forall e, In e es -> inert e = true) ->
+  (forall t', v_rec (view a' t') = v_rec (view a t') /\ v_op (view a' t') = v_op (view a t') /\
+              v_val (view a' t') = v_val (view a t')) ->
+  (forall k, g_srcs g' k = g_srcs g k) ->
+  X_cl g' a' (tr ++ Conc.tag t es).
+Proof.
+  intros (H1 & H2 & H3 & H4 & H5) Hin Hv Hs.
+  assert (Hx : forall e, In e es -> xplain e = true) by (intros; apply inert_xplain; auto).
+  split; [|split; [|split; [|split]]].
+  - apply TrOK_xplain; assumption.
+  - intros t'. rewrite att_at_xplain by exact Hx. destruct (Hv t') as (-> & _). apply H2.
+  - intros t' e0. destruct (Hv t') as (_ & -> & _). intros Ho. destruct (Nat.eq_dec t' t) as [->|Hne].
+    + rewrite open_op_same, op_fold_inert by exact Hin. now apply H3.
+    + rewrite open_op_other by exact Hne. now apply H3.
+  - intros t' r j x ok Hval. destruct (Hv t') as (_ & _ & E). rewrite E in Hval.
+    apply val_pat_ext; [eapply H4; eauto|]. right. intros e He. apply xplain_pat_ok. auto.
+  - intros k. rewrite src_at_xplain by exact Hx. rewrite Hs. apply H5.
+Qed.
+
+Lemma X_transfer0 g a tr g' a' :
+  X_cl g a tr ->
+  (forall t', v_rec (view a' t') = v_rec (view a t') /\ v_op (view a' t') = v_op (view a t') /\
+              v_val (view a' t') = v_val (view a t')) ->
+  (forall k, g_srcs g' k = g_srcs g k) ->
+  X_cl g' a' tr.
+Proof.
+  intros H Hv Hs. pose proof (X_transfer g a tr g' a' 0 [] H) as HX. cbn in HX. rewrite app_nil_r in HX.
+  apply HX; [intros e []|exact Hv|exact Hs].
+Qed.
+
+Ltac xbullets HX := destruct HX as (HX1 & HX2 & HX3 & HX4 & HX5).
+
 (** ** 1. neutral events *)
 Lemma resp_last_other tr t t' es : t' <> t -> resp_last (tr ++ Conc.tag t' es) t <-> resp_last tr t.
 Proof. intros H. unfold resp_last. now rewrite last_ev_tag_other. Qed.
@@ -323,9 +452,11 @@ Lemma inv_neutral c g a tr t es :
   Inv c g a tr ->
   (forall e, In e es -> neutral e = true) ->
   (forall es' e, es = es' ++ [e] -> is_resp e = true -> idle (view a t)) ->
+  (forall e, In e es -> xplain e = true) ->
+  (v_op (view a t) = None \/ forall e, In e es -> inert e = true) ->
   Inv c g a (tr ++ Conc.tag t es).
 Proof.
-  intros HI Hn Hr. destruct HI.
+  intros HI Hn Hr Hx Hop. destruct HI.
   assert (Hq : forall e, In e es -> quiet e = true) by (intros; apply neutral_quiet; auto).
   apply mkInv.
   - intros r j. rewrite slot_at_neutral by exact Hn. auto.
@@ -355,17 +486,26 @@ Proof.
   - apply (size_cl_transfer c g a tr g a _ i_size); [apply le_n|intros p; apply cnt_le_app|intros; apply le_n|auto].
   - apply (noovf_cl_transfer c g tr g _ i_noovf); [apply le_n|intros p; apply cnt_le_app|].
     intros p. rewrite cnt_app, cnt_overflow_quiet by exact Hq. lia.
+  - now apply TrOK_xplain.
+  - intros t'. rewrite att_at_xplain by exact Hx. apply i_att.
+  - intros t' e0 Ho. destruct (Nat.eq_dec t' t) as [->|Hne].
+    + destruct Hop as [Hop|Hop]; [congruence|]. rewrite open_op_same, op_fold_inert by exact Hop. now apply i_op.
+    + rewrite open_op_other by exact Hne. now apply i_op.
+  - intros t' r j x ok Hv. apply val_pat_ext; [eapply i_val; eauto|]. right. intros e He. apply xplain_pat_ok. auto.
+  - intros k. rewrite src_at_xplain by exact Hx. apply i_src.
 Qed.
 
 (** the usual case: one access event *)
 Lemma inv_acc c g a tr t k o b :
   Inv c g a tr -> k <> KBegin -> Inv c g a (tr ++ Conc.tag t [EvAcc k o b]).
 Proof.
-  intros HI Hk. apply inv_neutral; [exact HI| |].
+  intros HI Hk. apply inv_neutral; [exact HI| | | |].
   - intros e [<-|[]]. reflexivity.
   - intros es' e He Hresp. assert (e = EvAcc k o b) as ->.
     { destruct es' as [|x es'']; cbn in He; [inversion He; auto|]. inversion He. destruct es''; discriminate. }
     destruct k; try discriminate. congruence.
+  - intros e [<-|[]]. reflexivity.
+  - right. intros e [<-|[]]. unfold inert. cbn. destruct k; try reflexivity. congruence.
 Qed.
 
 Lemma not_resp_after_acc tr t k o b : k <> KBegin -> ~ resp_last (tr ++ Conc.tag t [EvAcc k o b]) t.
@@ -410,7 +550,7 @@ Proof.
 Qed.
 
 (** ** 3. the thread changes soft parts of its view only (scan progress, known records, cleared prefix) *)
-Lemma inv_soft c g a tr t v' :
+Lemma inv_soft_gen c g a tr t v' :
   Inv c g a tr ->
   v_rec v' = v_rec (view a t) -> v_held v' = v_held (view a t) -> v_cl v' = v_cl (view a t) ->
   v_clr v' <= v_clr (view a t) ->
@@ -422,9 +562,10 @@ Lemma inv_soft c g a tr t v' :
   (forall sv r s, v_scan v' = Some sv -> v_rec v' = Some r -> last_sb tr t = Some s ->
      forall p, In p (effc g a r) -> retired_before tr s p) ->
   (forall sv, v_scan v' = Some sv -> collsz_ok c g sv) ->
+  X_cl g (upd_view a t v') tr ->
   Inv c g (upd_view a t v') tr.
 Proof.
-  intros HI Hr Hh Hc Hk Hs Hv Hrs Hcz. destruct HI.
+  intros HI Hr Hh Hc Hk Hs Hv Hrs Hcz HX. destruct HI. xbullets HX.
   assert (Ho : forall t' r, owns (view (upd_view a t v') t') r <-> owns (view a t') r).
   { intros t' r. vcase t' t; [|tauto]. unfold owns. rewrite Hr, Hh. tauto. }
   apply mkInv.
@@ -462,6 +603,46 @@ Proof.
   - apply (size_cl_transfer c g _ tr g _ tr i_size); [apply le_n|intros; lia|intros; apply le_n|].
     intros t' cl H. vcase t' t; [now rewrite Hc|exact H].
   - exact i_noovf.
+  - exact HX1.
+  - exact HX2.
+  - exact HX3.
+  - exact HX4.
+  - exact HX5.
+Qed.
+
+Lemma inv_soft c g a tr t v' :
+  Inv c g a tr ->
+  v_rec v' = v_rec (view a t) -> v_held v' = v_held (view a t) -> v_cl v' = v_cl (view a t) ->
+  v_op v' = v_op (view a t) -> v_val v' = v_val (view a t) ->
+  v_clr v' <= v_clr (view a t) ->
+  (forall r, In r (v_seen v') -> In r (g_list g)) ->
+  (forall sv, v_scan v' = Some sv ->
+     exists s, last_sb tr t = Some s /\
+       (forall r j v, covered (cH c) sv r j -> v <> 0%Z -> held tr s r j v -> In v (sc_coll sv)) /\
+       (forall v, In v (sc_coll sv) -> seen_in tr s (List.length tr) v)) ->
+  (forall sv r s, v_scan v' = Some sv -> v_rec v' = Some r -> last_sb tr t = Some s ->
+     forall p, In p (effc g a r) -> retired_before tr s p) ->
+  (forall sv, v_scan v' = Some sv -> collsz_ok c g sv) ->
+  Inv c g (upd_view a t v') tr.
+Proof.
+  intros HI Hr Hh Hc Ho Hva Hk Hs Hv Hrs Hcz. apply inv_soft_gen; auto.
+  apply (X_transfer0 g a tr g _ (X_of_inv _ _ _ _ HI)); [|reflexivity].
+  intros t'. vcase t' t; auto.
+Qed.
+
+Definition with_x (v : lview) (o : option ev) (val : option (nat * nat * Z * option nat)) : lview :=
+  mkV (v_rec v) (v_held v) (v_clr v) (v_scan v) (v_cl v) (v_seen v) o val.
+
+(** the thread changes only its record of the current operation / last slot store *)
+Lemma inv_set_x c g a tr t o val :
+  Inv c g a tr -> X_cl g (upd_view a t (with_x (view a t) o val)) tr ->
+  Inv c g (upd_view a t (with_x (view a t) o val)) tr.
+Proof.
+  intros HI HX. apply inv_soft_gen; try reflexivity; [exact HI| | | | |exact HX].
+  - intros r H. cbn in H. apply (i_seen _ _ _ _ HI t r H).
+  - intros sv H. cbn in H. apply (i_cov _ _ _ _ HI t sv H).
+  - intros sv r s H1 H2 H3 p Hp. cbn in H1, H2. eapply (i_retd_scan _ _ _ _ HI); eauto.
+  - intros sv H. cbn in H. eapply (i_collsz _ _ _ _ HI); eauto.
 Qed.
 
 (** ** 4. a state change in fields the invariant does not mention (free_, client sources) *)
@@ -471,9 +652,11 @@ Lemma inv_irrel c g g' a tr :
   (forall r, r_owner (get_rec g' r) = r_owner (get_rec g r) /\
              r_slots (get_rec g' r) = r_slots (get_rec g r) /\
              r_ret (get_rec g' r) = r_ret (get_rec g r)) ->
+  (forall k, g_srcs g' k = g_srcs g k) ->
   Inv c g' a tr.
 Proof.
-  intros HI Hl Hn Hf. destruct HI.
+  intros HI Hl Hn Hf Hsrc. assert (HX : X_cl g' a tr) by (apply (X_transfer0 g a tr g' a (X_of_inv _ _ _ _ HI)); auto).
+  destruct HI. xbullets HX.
   assert (Hs : forall r j, gslot g' r j = gslot g r j).
   { intros r j. unfold gslot. destruct (Hf r) as (_ & -> & _). reflexivity. }
   assert (Ho : forall r, r_owner (get_rec g' r) = r_owner (get_rec g r)) by (intros r; apply Hf).
@@ -509,11 +692,91 @@ Proof.
   - apply (size_cl_transfer c g a tr g' a tr i_size); [rewrite Hl; lia|intros; lia| |auto].
     intros r. destruct (Hf r) as (_ & _ & ->). lia.
   - apply (noovf_cl_transfer c g tr g' tr i_noovf); [rewrite Hl; lia|intros; lia|reflexivity].
+  - exact HX1.
+  - exact HX2.
+  - exact HX3.
+  - exact HX4.
+  - exact HX5.
+Qed.
+
+(** ** 4b. the general quiet step: neutral events, a state change in fields the old clauses do not mention
+       (client sources, free_), and a change of the thread's record of its operation / last store;
+       the clauses about attachment, operations and sources are supplied by the caller *)
+Lemma inv_quiet_step c g g' a tr t es o val :
+  Inv c g a tr ->
+  g_list g' = g_list g -> List.length (g_recs g') = List.length (g_recs g) ->
+  (forall r, r_owner (get_rec g' r) = r_owner (get_rec g r) /\
+             r_slots (get_rec g' r) = r_slots (get_rec g r) /\
+             r_ret (get_rec g' r) = r_ret (get_rec g r)) ->
+  (forall e, In e es -> neutral e = true) ->
+  (forall es' e, es = es' ++ [e] -> is_resp e = true -> idle (view a t)) ->
+  X_cl g' (upd_view a t (with_x (view a t) o val)) (tr ++ Conc.tag t es) ->
+  Inv c g' (upd_view a t (with_x (view a t) o val)) (tr ++ Conc.tag t es).
+Proof.
+  intros HI Hl Hlen Hf Hn Hr HX.
+  set (a' := upd_view a t (with_x (view a t) o val)) in *.
+  assert (Hq : forall e, In e es -> quiet e = true) by (intros; apply neutral_quiet; auto).
+  assert (Hs : forall r j, gslot g' r j = gslot g r j).
+  { intros r j. unfold gslot. destruct (Hf r) as (_ & -> & _). reflexivity. }
+  assert (Ho : forall r, r_owner (get_rec g' r) = r_owner (get_rec g r)) by (intros r; apply Hf).
+  assert (Hret : forall r, r_ret (get_rec g' r) = r_ret (get_rec g r)) by (intros r; apply Hf).
+  assert (He : forall r, effc g' a' r = effc g a r).
+  { intros r. unfold effc, a'. cbn. now rewrite Hret. }
+  assert (Hvr : forall t', v_rec (view a' t') = v_rec (view a t')) by (intros t'; unfold a'; vcase t' t; reflexivity).
+  assert (Hvh : forall t', v_held (view a' t') = v_held (view a t')) by (intros t'; unfold a'; vcase t' t; reflexivity).
+  assert (Hvk : forall t', v_clr (view a' t') = v_clr (view a t')) by (intros t'; unfold a'; vcase t' t; reflexivity).
+  assert (Hvc : forall t', v_cl (view a' t') = v_cl (view a t')) by (intros t'; unfold a'; vcase t' t; reflexivity).
+  assert (Hvs : forall t', v_scan (view a' t') = v_scan (view a t')) by (intros t'; unfold a'; vcase t' t; reflexivity).
+  assert (Hvn : forall t', v_seen (view a' t') = v_seen (view a t')) by (intros t'; unfold a'; vcase t' t; reflexivity).
+  assert (Hoo : forall t' r, owns (view a' t') r <-> owns (view a t') r).
+  { intros t' r. unfold owns. rewrite Hvr, Hvh. tauto. }
+  destruct HI. xbullets HX.
+  apply mkInv.
+  - intros r j. rewrite slot_at_neutral by exact Hn. rewrite Hs. auto.
+  - intros r j H. rewrite Hs. rewrite Ho in H. auto.
+  - intros r j H. rewrite Hs. rewrite Hl in H. auto.
+  - intros r j H. rewrite Hs. auto.
+  - intros r H. rewrite Hl in H. rewrite Hlen. auto.
+  - intros t' r H. rewrite Hvr in H. rewrite Ho, Hl. eauto.
+  - intros t' r H. rewrite Hvh in H. rewrite Hlen, Ho. destruct (i_held t' r H) as (H1 & H2 & H3).
+    repeat split; auto. intros j. rewrite Hs. auto.
+  - intros t1 t2 r H1 H2. apply Hoo in H1. apply Hoo in H2. eauto.
+  - intros t'. rewrite Hvr, Hvh. auto.
+  - intros t' r j H1 H2. rewrite Hs. rewrite Hvr in H1. rewrite Hvk in H2. eauto.
+  - intros r H. rewrite Hlen in H. rewrite Hl. destruct (i_unl r H) as [H1|(t' & H1)]; [now left|right].
+    exists t'. now rewrite Hvh.
+  - intros t' r H. rewrite Hvn in H. rewrite Hl. eauto.
+  - intros t' cl H. rewrite Hvc in H. destruct (i_claim t' cl H) as (H1 & H2). split; [now apply Hoo|].
+    destruct cl; cbn in *; rewrite Hret; exact H2.
+  - intros t'. rewrite Hvc. auto.
+  - intros r x H. destruct (i_eff r x H) as (t' & cl & H1 & H2). exists t', cl. now rewrite Hvc.
+  - assert (Hb : bal_cl g a (tr ++ Conc.tag t es)) by (apply bal_cl_quiet; auto).
+    intros p. rewrite Hb. f_equal. symmetry. apply pend_ext; [exact Hlen|]. intros r _. apply He.
+  - assert (Hc : cov_cl c a (tr ++ Conc.tag t es)) by (apply cov_cl_quiet; auto).
+    intros t' sv H. rewrite Hvs in H. apply (Hc t' sv H).
+  - now apply safe_cl_quiet.
+  - now apply kept_cl_quiet.
+  - assert (Hi : idle_cl a (tr ++ Conc.tag t es)) by (apply idle_cl_ext; auto).
+    intros t' H. specialize (Hi t' H). unfold idle in *. now rewrite Hvh, Hvc.
+  - intros r p H. rewrite He in H. apply (retd_cl_ext g a tr _ i_retd r p H).
+  - intros t' sv r s H1 H2 H3 p Hp. rewrite Hvs in H1. rewrite Hvr in H2. rewrite He in Hp.
+    apply (retd_scan_cl_ext g a tr t es i_retd_scan (fun e He0 => quiet_nosb e (Hq e He0)) t' sv r s H1 H2 H3 p Hp).
+  - apply (pre_cl_nodispose tr t es i_pre). intros e p He0. apply quiet_not_dispose. auto.
+  - intros t' sv H. rewrite Hvs in H. eapply collsz_ok_mono; [eauto|]. rewrite Hl. apply le_n.
+  - apply (size_cl_transfer c g a tr g' a' _ i_size); [rewrite Hl; apply le_n|intros p; apply cnt_le_app|intros r; rewrite Hret; apply le_n|].
+    intros t' cl H. now rewrite Hvc.
+  - apply (noovf_cl_transfer c g tr g' _ i_noovf); [rewrite Hl; apply le_n|intros p; apply cnt_le_app|].
+    intros p. rewrite cnt_app, cnt_overflow_quiet by exact Hq. lia.
+  - exact HX1.
+  - exact HX2.
+  - exact HX3.
+  - exact HX4.
+  - exact HX5.
 Qed.
 
 Lemma inv_st_free c g a tr r b : Inv c g a tr -> Inv c (upd_rec g r (set_free b)) a tr.
 Proof.
-  intros HI. eapply inv_irrel; [exact HI|reflexivity|apply upd_rec_length|].
+  intros HI. eapply inv_irrel; [exact HI|reflexivity|apply upd_rec_length| |reflexivity].
   intros r'. destruct (Nat.eq_dec r' r) as [->|Hne].
   - destruct (Nat.lt_ge_cases r (List.length (g_recs g))) as [Hlt|Hge].
     + rewrite get_upd_same by exact Hlt. auto.
@@ -521,12 +784,8 @@ Proof.
   - rewrite get_upd_other by exact Hne. auto.
 Qed.
 
-Lemma inv_xchg_src c g a tr k v :
-  Inv c g a tr -> Inv c (mkG (g_list g) (g_recs g) (fun i => if Nat.eqb i k then v else g_srcs g i)) a tr.
-Proof. intros HI. eapply inv_irrel; [exact HI|reflexivity|reflexivity|]. intros r. auto. Qed.
 
 (** ** 5. store into a hazard slot of the attached record *)
-Definition ev_slot (r j : nat) (v : Z) : ev := EvCli "g_slot" [zn r; zn j; v].
 Definition st_slot_evs (r j : nat) (v : Z) : list ev := [EvAcc KSt (obj_slot r j) true; ev_slot r j v].
 
 Lemma st_slot_quiet r j v e : In e (st_slot_evs r j v) -> quiet e = true.
@@ -552,7 +811,9 @@ Proof.
   - rewrite get_upd_other by exact Hr. reflexivity.
 Qed.
 
-Definition with_clr (v : lview) (k : nat) : lview := mkV (v_rec v) (v_held v) k (v_scan v) (v_cl v) (v_seen v).
+Definition slot_view (v : lview) (k : nat) (r j : nat) (x : Z) : lview :=
+  mkV (v_rec v) (v_held v) k (v_scan v) (v_cl v) (v_seen v) (v_op v) (Some (r, j, x, None)).
+Definition with_clr (v : lview) (k : nat) : lview := mkV (v_rec v) (v_held v) k (v_scan v) (v_cl v) (v_seen v) (v_op v) (v_val v).
 
 Lemma excl_rec_held c g a tr t t' r :
   Inv c g a tr -> v_rec (view a t) = Some r -> In r (v_held (view a t')) -> False.
@@ -564,14 +825,47 @@ Qed.
 Lemma inv_st_slot c g a tr t r j v k' :
   Inv c g a tr -> v_rec (view a t) = Some r -> j < cH c ->
   (forall i, i < k' -> (i < v_clr (view a t) /\ i <> j) \/ (i = j /\ v = 0%Z)) ->
-  Inv c (upd_rec g r (set_slot j v)) (upd_view a t (with_clr (view a t) k'))
+  forall e0, v_op (view a t) = Some e0 -> rel_b j e0 = true ->
+  Inv c (upd_rec g r (set_slot j v)) (upd_view a t (slot_view (view a t) k' r j v))
       (tr ++ Conc.tag t (st_slot_evs r j v)).
 Proof.
-  intros HI Hrec Hj Hk.
+  intros HI Hrec Hj Hk e0 Hop Hrel.
   assert (Hlt : r < List.length (g_recs g)) by (eapply owns_lt; [exact HI|left; exact Hrec]).
   assert (Hex : forall t', In r (v_held (view a t')) -> False) by (intros t'; eapply excl_rec_held; eauto).
-  destruct HI.
-  set (g' := upd_rec g r (set_slot j v)). set (a' := upd_view a t (with_clr (view a t) k')).
+  assert (HX : X_cl (upd_rec g r (set_slot j v)) (upd_view a t (slot_view (view a t) k' r j v)) (tr ++ Conc.tag t (st_slot_evs r j v))).
+  { destruct (X_of_inv _ _ _ _ HI) as (X1 & X2 & X3 & X4 & X5).
+    assert (Eatt : forall t', att_at (tr ++ Conc.tag t (st_slot_evs r j v)) t' = att_at tr t').
+    { intros t'. rewrite att_at_app. cbn. unfold att_step. cbn. destruct (Nat.eqb t t'); reflexivity. }
+    assert (Eop : forall t', open_op (tr ++ Conc.tag t (st_slot_evs r j v)) t' = open_op tr t').
+    { intros t'. rewrite open_op_app. cbn. unfold op_step. cbn. destruct (Nat.eqb t t'); reflexivity. }
+    split; [|split; [|split; [|split]]].
+    - apply TrOK_ext; [exact X1|]. intros k u e Hk0. apply nth_error_tag in Hk0. destruct Hk0 as (-> & Hk0).
+      destruct k as [|[|k]]; cbn in Hk0; try (destruct k; discriminate).
+      + inversion Hk0; subst e. apply xplain_ev_ok. reflexivity.
+      + inversion Hk0; subst e. cbn [firstn Conc.tag map].
+        assert (Ea : att_at (tr ++ [(t, EvAcc KSt (obj_slot r j) true)]) t = Some r).
+        { rewrite att_at_snoc. unfold att_step. cbn. rewrite Nat.eqb_refl. cbn. rewrite X2. exact Hrec. }
+        assert (Eo : open_op (tr ++ [(t, EvAcc KSt (obj_slot r j) true)]) t = Some e0).
+        { rewrite open_op_snoc. unfold op_step. cbn. rewrite Nat.eqb_refl. cbn. now apply X3. }
+        unfold ev_ok, ev_slot, ev_det, ev_att. repeat split; intros; try discriminate.
+        * match goal with E : EvCli _ _ = EvCli _ _ |- _ => inversion E as [[Er Ej Ex]] end.
+          apply zn_inj in Er. subst. exact Ea.
+        * match goal with E : EvCli _ _ = EvCli _ _ |- _ => inversion E as [[Er Ej Ex]] end.
+          apply zn_inj in Ej. subst. exists e0. split; [exact Eo|exact Hrel].
+    - intros t'. rewrite Eatt, X2. destruct (Nat.eq_dec t' t) as [->|?]; [rewrite view_upd_same|rewrite view_upd_other by assumption]; reflexivity.
+    - intros t' e1 Ho1. rewrite Eop. apply X3.
+      destruct (Nat.eq_dec t' t) as [->|?]; [rewrite view_upd_same in Ho1|rewrite view_upd_other in Ho1 by assumption]; exact Ho1.
+    - intros t' r1 j1 x1 ok1 Hv1. destruct (Nat.eq_dec t' t) as [->|Hne].
+      + rewrite view_upd_same in Hv1. cbn in Hv1. inversion Hv1; subst r1 j1 x1 ok1.
+        exists (S (List.length tr)). split.
+        * rewrite nth_error_app2 by lia. replace (S (List.length tr) - List.length tr) with 1 by lia. reflexivity.
+        * split; [|exact I]. intros i e Hi Hn. exfalso.
+          assert (i < List.length (tr ++ Conc.tag t (st_slot_evs r j v))) by (apply nth_error_Some; congruence).
+          rewrite app_length in H. cbn in H. lia.
+      + rewrite view_upd_other in Hv1 by exact Hne. apply val_pat_ext; [eapply X4; eauto|now left].
+    - intros k. rewrite src_at_app. cbn. apply X5. }
+  destruct HI. xbullets HX.
+  set (g' := upd_rec g r (set_slot j v)). set (a' := upd_view a t (slot_view (view a t) k' r j v)).
   assert (Hown : forall r', r_owner (get_rec g' r') = r_owner (get_rec g r')).
   { intros r'. unfold g'. destruct (Nat.eq_dec r' r) as [->|Hne];
       [rewrite get_upd_same by exact Hlt|rewrite get_upd_other by exact Hne]; reflexivity. }
@@ -644,6 +938,11 @@ Proof.
     intros t' cl H. now rewrite Hvc.
   - apply (noovf_cl_transfer c g tr g' _ i_noovf); [apply le_n|intros p; apply cnt_le_app|].
     intros p. rewrite cnt_app, cnt_overflow_quiet by exact Hq. lia.
+  - exact HX1.
+  - exact HX2.
+  - exact HX3.
+  - exact HX4.
+  - exact HX5.
 Qed.
 
 (** ** 6. owner_rec_ changes *)
@@ -665,77 +964,10 @@ Proof.
   - apply upd_rec_length.
 Qed.
 
-Definition with_rec (v : lview) (o : option nat) : lview := mkV o (v_held v) 0 (v_scan v) (v_cl v) (v_seen v).
-Definition with_held (v : lview) (h : list nat) : lview := mkV (v_rec v) h (v_clr v) (v_scan v) (v_cl v) (v_seen v).
+Definition with_rec (v : lview) (o : option nat) : lview := mkV o (v_held v) 0 (v_scan v) (v_cl v) (v_seen v) (v_op v) (v_val v).
+Definition with_held (v : lview) (h : list nat) : lview := mkV (v_rec v) h (v_clr v) (v_scan v) (v_cl v) (v_seen v) (v_op v) (v_val v).
 
-(** alloc_thread_data reuses a free record: CAS owner_rec_ null -> rec succeeded *)
-Lemma inv_acquire_rec c g a tr t r :
-  Inv c g a tr -> v_rec (view a t) = None -> v_scan (view a t) = None -> In r (g_list g) -> r_owner (get_rec g r) = false ->
-  Inv c (upd_rec g r (set_owner true)) (upd_view a t (with_rec (view a t) (Some r))) tr.
-Proof.
-  intros HI Hnone Hnoscan Hin Hfree.
-  assert (Hlt : r < List.length (g_recs g)) by (apply (i_list_lt _ _ _ _ HI); exact Hin).
-  assert (Hnobody : forall t', ~ owns (view a t') r).
-  { intros t' Ho. pose proof (owns_owner _ _ _ _ _ _ HI Ho). congruence. }
-  destruct (set_owner_facts g r true Hlt) as (Hs & Hret & Hoo & Hor & Hlen & Hlist).
-  destruct HI.
-  set (g' := upd_rec g r (set_owner true)) in *. set (a' := upd_view a t (with_rec (view a t) (Some r))).
-  assert (Hvh : forall t', v_held (view a' t') = v_held (view a t')) by (intros t'; unfold a'; vcase t' t; reflexivity).
-  assert (Hvc : forall t', v_cl (view a' t') = v_cl (view a t')) by (intros t'; unfold a'; vcase t' t; reflexivity).
-  assert (Hvs : forall t', v_scan (view a' t') = v_scan (view a t')) by (intros t'; unfold a'; vcase t' t; reflexivity).
-  assert (Hvn : forall t', v_seen (view a' t') = v_seen (view a t')) by (intros t'; unfold a'; vcase t' t; reflexivity).
-  assert (Ho : forall t' r', owns (view a' t') r' -> owns (view a t') r' \/ (t' = t /\ r' = r)).
-  { intros t' r' [H|H].
-    - unfold a' in H. vcase t' t; [cbn in H; inversion H; auto|left; left; exact H].
-    - rewrite Hvh in H. left; right; exact H. }
-  assert (Ho2 : forall t' r', owns (view a t') r' -> owns (view a' t') r').
-  { intros t' r' [H|H]; [|right; now rewrite Hvh]. unfold a'. vcase t' t; [congruence|left; exact H]. }
-  apply mkInv.
-  - intros r' j. rewrite Hs. auto.
-  - intros r' j H. rewrite Hs. destruct (Nat.eq_dec r' r) as [->|Hne]; [congruence|]. rewrite Hoo in H by exact Hne. auto.
-  - intros r' j H. rewrite Hs. rewrite Hlist in H. auto.
-  - intros r' j H. rewrite Hs. auto.
-  - intros r' H. rewrite Hlist in H. rewrite Hlen. auto.
-  - intros t' r' H. rewrite Hlist. unfold a' in H. vcase t' t.
-    + cbn in H. inversion H; subst r'. split; [exact Hor|exact Hin].
-    + destruct (i_rec t' r' H) as (H1 & H2). split; [|exact H2].
-      destruct (Nat.eq_dec r' r) as [->|Hne]; [exact Hor|]. now rewrite Hoo.
-  - intros t' r' H. rewrite Hvh in H. destruct (i_held t' r' H) as (H1 & H2 & H3).
-    rewrite Hlen. repeat split; auto.
-    + destruct (Nat.eq_dec r' r) as [->|Hne]; [exact Hor|]. now rewrite Hoo.
-    + intros j. rewrite Hs. auto.
-  - intros t1 t2 r' H1 H2. apply Ho in H1. apply Ho in H2.
-    destruct H1 as [H1|(E1 & E1')]; destruct H2 as [H2|(E2 & E2')]; subst; eauto.
-    + exfalso. eapply Hnobody; eauto.
-    + exfalso. eapply Hnobody; eauto.
-  - intros t'. rewrite Hvh. destruct (i_self t') as (H1 & H2). split; [exact H1|].
-    intros r' H. unfold a' in H. vcase t' t; [|eauto]. cbn in H. inversion H; subst r'.
-    intros Hin'. eapply Hnobody. right. exact Hin'.
-  - intros t' r' j H1 H2. rewrite Hs. unfold a' in H1, H2. vcase t' t; [cbn in H2; lia|eauto].
-  - intros r' H. rewrite Hlen in H. rewrite Hlist. destruct (i_unl r' H) as [H1|(t' & H1)]; [now left|right].
-    exists t'. now rewrite Hvh.
-  - intros t' r' H. rewrite Hvn in H. rewrite Hlist. eauto.
-  - intros t' cl H. rewrite Hvc in H. destruct (i_claim t' cl H) as (H1 & H2). split; [now apply Ho2|].
-    destruct cl; cbn in *; rewrite Hret; exact H2.
-  - intros t'. rewrite Hvc. auto.
-  - intros r' x H. destruct (i_eff r' x H) as (t' & cl & H1 & H2). exists t', cl. now rewrite Hvc.
-  - intros p. rewrite i_bal. f_equal. symmetry. apply pend_ext; [exact Hlen|].
-    intros r' _. unfold effc. rewrite Hret. reflexivity.
-  - intros t' sv H. rewrite Hvs in H. eauto.
-  - exact i_safe.
-  - exact i_kept.
-  - intros t' H. specialize (i_idle t' H). unfold idle in *. now rewrite Hvh, Hvc.
-  - intros r' p H. apply (i_retd r' p). unfold effc in *. unfold a' in H. cbn [a_eff upd_view] in *. rewrite Hret in H. exact H.
-  - intros t' sv r' s H1 H2 H3 p Hp. rewrite Hvs in H1.
-    assert (H2' : v_rec (view a t') = Some r').
-    { unfold a' in H2. vcase t' t; [congruence|exact H2]. }
-    apply (i_retd_scan t' sv r' s H1 H2' H3 p). unfold effc in *. unfold a' in Hp. cbn [a_eff upd_view] in *. rewrite Hret in Hp. exact Hp.
-  - exact i_pre.
-  - intros t' sv H. rewrite Hvs in H. eapply collsz_ok_mono; [eauto|]. apply le_n.
-  - apply (size_cl_transfer c g a tr g' a' tr i_size); [apply le_n|intros; lia|intros r'; rewrite Hret; lia|].
-    intros t' cl H. now rewrite Hvc.
-  - apply (noovf_cl_transfer c g tr g' tr i_noovf); [apply le_n|intros; lia|reflexivity].
-Qed.
+
 
 Lemma NoDup_remove_eq (l : list nat) x : NoDup l -> NoDup (remove Nat.eq_dec x l).
 Proof.
@@ -756,7 +988,9 @@ Proof.
   assert (Hnobody : forall t', ~ owns (view a t') r).
   { intros t' Ho. pose proof (owns_owner _ _ _ _ _ _ HI Ho). congruence. }
   destruct (set_owner_facts g r true Hlt) as (Hs & Hret & Hoo & Hor & Hlen & Hlist).
-  destruct HI.
+  assert (HX : X_cl (upd_rec g r (set_owner true)) (upd_view a t (with_held (view a t) (r :: v_held (view a t)))) tr)
+    by (apply (X_transfer0 g a tr _ _ (X_of_inv _ _ _ _ HI)); [intros t'; destruct (Nat.eq_dec t' t) as [->|?]; [rewrite view_upd_same|rewrite view_upd_other by assumption]; cbn; auto|reflexivity]).
+  destruct HI. xbullets HX.
   set (g' := upd_rec g r (set_owner true)) in *.
   set (a' := upd_view a t (with_held (view a t) (r :: v_held (view a t)))).
   assert (Hvr : forall t', v_rec (view a' t') = v_rec (view a t')) by (intros t'; unfold a'; vcase t' t; reflexivity).
@@ -815,70 +1049,14 @@ Proof.
   - apply (size_cl_transfer c g a tr g' a' tr i_size); [apply le_n|intros; lia|intros r'; rewrite Hret; lia|].
     intros t' cl H. now rewrite Hvc.
   - apply (noovf_cl_transfer c g tr g' tr i_noovf); [apply le_n|intros; lia|reflexivity].
+  - exact HX1.
+  - exact HX2.
+  - exact HX3.
+  - exact HX4.
+  - exact HX5.
 Qed.
 
-(** free_thread_data: owner_rec_.store( nullptr ) of the attached record, all of whose slots are null *)
-Lemma inv_release_rec c g a tr t r :
-  Inv c g a tr -> v_rec (view a t) = Some r -> cH c <= v_clr (view a t) ->
-  (forall cl, In cl (v_cl (view a t)) -> crec cl <> r) ->
-  Inv c (upd_rec g r (set_owner false)) (upd_view a t (with_rec (view a t) None)) tr.
-Proof.
-  intros HI Hrec Hclr Hcl.
-  assert (Hlt : r < List.length (g_recs g)) by (eapply owns_lt; [exact HI|left; exact Hrec]).
-  assert (Hex : forall t', In r (v_held (view a t')) -> False) by (intros t'; eapply excl_rec_held; eauto).
-  destruct (set_owner_facts g r false Hlt) as (Hs & Hret & Hoo & Hor & Hlen & Hlist).
-  destruct HI.
-  set (g' := upd_rec g r (set_owner false)) in *. set (a' := upd_view a t (with_rec (view a t) None)).
-  assert (Hvh : forall t', v_held (view a' t') = v_held (view a t')) by (intros t'; unfold a'; vcase t' t; reflexivity).
-  assert (Hvc : forall t', v_cl (view a' t') = v_cl (view a t')) by (intros t'; unfold a'; vcase t' t; reflexivity).
-  assert (Hvs : forall t', v_scan (view a' t') = v_scan (view a t')) by (intros t'; unfold a'; vcase t' t; reflexivity).
-  assert (Hvn : forall t', v_seen (view a' t') = v_seen (view a t')) by (intros t'; unfold a'; vcase t' t; reflexivity).
-  assert (Hvr : forall t' r', v_rec (view a' t') = Some r' -> v_rec (view a t') = Some r' /\ r' <> r).
-  { intros t' r' H. unfold a' in H. vcase t' t; [discriminate|]. split; [exact H|].
-    intros ->. assert (t' = t) by (eapply i_excl; left; eauto). congruence. }
-  assert (Ho : forall t' r', owns (view a' t') r' -> owns (view a t') r').
-  { intros t' r' [H|H]; [left; now apply Hvr|right; now rewrite Hvh in H]. }
-  apply mkInv.
-  - intros r' j. rewrite Hs. auto.
-  - intros r' j H. rewrite Hs. destruct (Nat.eq_dec r' r) as [->|Hne]; [|rewrite Hoo in H by exact Hne; auto].
-    destruct (Nat.lt_ge_cases j (cH c)); [eapply i_clr; eauto; lia|auto].
-  - intros r' j H. rewrite Hs. rewrite Hlist in H. auto.
-  - intros r' j H. rewrite Hs. auto.
-  - intros r' H. rewrite Hlist in H. rewrite Hlen. auto.
-  - intros t' r' H. apply Hvr in H. destruct H as (H & Hne). rewrite Hlist, Hoo by exact Hne. eauto.
-  - intros t' r' H. rewrite Hvh in H. destruct (i_held t' r' H) as (H1 & H2 & H3). rewrite Hlen.
-    repeat split; auto.
-    + rewrite Hoo; [exact H2|]. intros ->. eapply Hex; eauto.
-    + intros j. rewrite Hs. auto.
-  - intros t1 t2 r' H1 H2. apply Ho in H1. apply Ho in H2. eauto.
-  - intros t'. rewrite Hvh. destruct (i_self t') as (H1 & H2). split; [exact H1|].
-    intros r' H. apply Hvr in H. destruct H as (H & _). eauto.
-  - intros t' r' j H1 H2. rewrite Hs. apply Hvr in H1. destruct H1 as (H1 & _).
-    unfold a' in H2. vcase t' t; [cbn in H2; lia|eauto].
-  - intros r' H. rewrite Hlen in H. rewrite Hlist. destruct (i_unl r' H) as [H1|(t' & H1)]; [now left|right].
-    exists t'. now rewrite Hvh.
-  - intros t' r' H. rewrite Hvn in H. rewrite Hlist. eauto.
-  - intros t' cl H. rewrite Hvc in H. destruct (i_claim t' cl H) as (H1 & H2). split.
-    + destruct H1 as [H1|H1]; [|right; now rewrite Hvh]. left. unfold a'. vcase t' t; [|exact H1].
-      exfalso. apply (Hcl cl H). congruence.
-    + destruct cl; cbn in *; rewrite Hret; exact H2.
-  - intros t'. rewrite Hvc. auto.
-  - intros r' x H. destruct (i_eff r' x H) as (t' & cl & H1 & H2). exists t', cl. now rewrite Hvc.
-  - intros p. rewrite i_bal. f_equal. symmetry. apply pend_ext; [exact Hlen|].
-    intros r' _. unfold effc. rewrite Hret. reflexivity.
-  - intros t' sv H. rewrite Hvs in H. eauto.
-  - exact i_safe.
-  - exact i_kept.
-  - intros t' H. specialize (i_idle t' H). unfold idle in *. now rewrite Hvh, Hvc.
-  - intros r' p H. apply (i_retd r' p). unfold effc in *. unfold a' in H. cbn [a_eff upd_view] in *. rewrite Hret in H. exact H.
-  - intros t' sv r' s H1 H2 H3 p Hp. rewrite Hvs in H1. apply Hvr in H2. destruct H2 as (H2 & _).
-    apply (i_retd_scan t' sv r' s H1 H2 H3 p). unfold effc in *. unfold a' in Hp. cbn [a_eff upd_view] in *. rewrite Hret in Hp. exact Hp.
-  - exact i_pre.
-  - intros t' sv H. rewrite Hvs in H. eapply collsz_ok_mono; [eauto|]. apply le_n.
-  - apply (size_cl_transfer c g a tr g' a' tr i_size); [apply le_n|intros; lia|intros r'; rewrite Hret; lia|].
-    intros t' cl H. now rewrite Hvc.
-  - apply (noovf_cl_transfer c g tr g' tr i_noovf); [apply le_n|intros; lia|reflexivity].
-Qed.
+
 
 (** help_scan gives a claimed record back: owner_rec_.store( nullptr ) *)
 Lemma inv_release_held c g a tr t h :
@@ -891,7 +1069,9 @@ Proof.
   assert (Hlt : h < List.length (g_recs g)) by (eapply owns_lt; [exact HI|right; exact Hheld]).
   assert (Hex : forall t', v_rec (view a t') = Some h -> False) by (intros t' H; eapply excl_rec_held; eauto).
   destruct (set_owner_facts g h false Hlt) as (Hs & Hret & Hoo & Hor & Hlen & Hlist).
-  destruct HI.
+  assert (HX : X_cl (upd_rec g h (set_owner false)) (upd_view a t (with_held (view a t) (remove Nat.eq_dec h (v_held (view a t))))) tr)
+    by (apply (X_transfer0 g a tr _ _ (X_of_inv _ _ _ _ HI)); [intros t'; destruct (Nat.eq_dec t' t) as [->|?]; [rewrite view_upd_same|rewrite view_upd_other by assumption]; cbn; auto|reflexivity]).
+  destruct HI. xbullets HX.
   set (g' := upd_rec g h (set_owner false)) in *.
   set (a' := upd_view a t (with_held (view a t) (remove Nat.eq_dec h (v_held (view a t))))).
   assert (Hvr : forall t', v_rec (view a' t') = v_rec (view a t')) by (intros t'; unfold a'; vcase t' t; reflexivity).
@@ -947,6 +1127,11 @@ Proof.
   - apply (size_cl_transfer c g a tr g' a' tr i_size); [apply le_n|intros; lia|intros r'; rewrite Hret; lia|].
     intros t' cl H. now rewrite Hvc.
   - apply (noovf_cl_transfer c g tr g' tr i_noovf); [apply le_n|intros; lia|reflexivity].
+  - exact HX1.
+  - exact HX2.
+  - exact HX3.
+  - exact HX4.
+  - exact HX5.
 Qed.
 
 (** ** 7. create_thread_data + first store, and the push onto thread_list_ *)
@@ -987,7 +1172,9 @@ Proof.
   assert (Hnobody : forall t', ~ owns (view a t') r).
   { intros t' Ho. pose proof (owns_lt _ _ _ _ _ _ HI Ho). unfold r in *. lia. }
   destruct (add_rec_facts g) as (Hs & Hret & Hoo & Hor & Hlen & Hlist). fold r in Hoo, Hor, Hlen.
-  destruct HI.
+  assert (HX : X_cl (add_rec g) (upd_view a t (with_held (view a t) (r :: v_held (view a t)))) tr)
+    by (apply (X_transfer0 g a tr _ _ (X_of_inv _ _ _ _ HI)); [intros t'; destruct (Nat.eq_dec t' t) as [->|?]; [rewrite view_upd_same|rewrite view_upd_other by assumption]; cbn; auto|reflexivity]).
+  destruct HI. xbullets HX.
   set (g' := add_rec g) in *.
   set (a' := upd_view a t (with_held (view a t) (r :: v_held (view a t)))).
   assert (Hvr : forall t', v_rec (view a' t') = v_rec (view a t')) by (intros t'; unfold a'; vcase t' t; reflexivity).
@@ -1054,76 +1241,56 @@ Proof.
   - apply (size_cl_transfer c g a tr g' a' tr i_size); [apply le_n|intros; lia|intros r'; rewrite Hret; lia|].
     intros t' cl H. now rewrite Hvc.
   - apply (noovf_cl_transfer c g tr g' tr i_noovf); [apply le_n|intros; lia|reflexivity].
+  - exact HX1.
+  - exact HX2.
+  - exact HX3.
+  - exact HX4.
+  - exact HX5.
 Qed.
 
 (** the CAS that publishes the new record at the head of thread_list_ *)
 Definition push_rec (g : G) (r : nat) : G := mkG (r :: g_list g) (g_recs g) (g_srcs g).
-Definition pushed_view (v : lview) (r : nat) : lview :=
-  mkV (Some r) (remove Nat.eq_dec r (v_held v)) 0 (v_scan v) (v_cl v) (v_seen v).
-
-Lemma inv_push c g a tr t r :
-  Inv c g a tr -> v_rec (view a t) = None -> v_scan (view a t) = None -> In r (v_held (view a t)) ->
-  Inv c (push_rec g r) (upd_view a t (pushed_view (view a t) r)) tr.
+Lemma inv_push_held c g a tr t r :
+  Inv c g a tr -> In r (v_held (view a t)) -> Inv c (push_rec g r) a tr.
 Proof.
-  intros HI Hnone Hnoscan Hheld.
+  intros HI Hheld.
   destruct (i_held _ _ _ _ HI t r Hheld) as (Hlt & Howner & Hzero).
-  destruct HI.
-  set (g' := push_rec g r). set (a' := upd_view a t (pushed_view (view a t) r)).
-  assert (Hget : forall r', get_rec g' r' = get_rec g r') by reflexivity.
-  assert (Hs : forall r' j, gslot g' r' j = gslot g r' j) by reflexivity.
-  assert (Hvc : forall t', v_cl (view a' t') = v_cl (view a t')) by (intros t'; unfold a'; vcase t' t; reflexivity).
-  assert (Hvs : forall t', v_scan (view a' t') = v_scan (view a t')) by (intros t'; unfold a'; vcase t' t; reflexivity).
-  assert (Hvn : forall t', v_seen (view a' t') = v_seen (view a t')) by (intros t'; unfold a'; vcase t' t; reflexivity).
-  assert (Hh : forall t' r', In r' (v_held (view a' t')) <-> In r' (v_held (view a t')) /\ r' <> r).
-  { intros t' r'. unfold a'. vcase t' t; [cbn; apply in_remove_iff|].
-    split; [|tauto]. intros H. split; [exact H|]. intros ->.
-    assert (t' = t) by (eapply i_excl; right; eauto). congruence. }
-  assert (Ho : forall t' r', owns (view a' t') r' <-> owns (view a t') r').
-  { intros t' r'. unfold owns. rewrite Hh. unfold a'. vcase t' t.
-    - cbn. rewrite Hnone. split.
-      + intros [H|(H & _)]; [inversion H; subst; now right|now right].
-      + intros [H|H]; [discriminate|]. destruct (Nat.eq_dec r' r) as [->|Hne]; [now left|right; now split].
-    - split; [tauto|]. intros [H|H]; [now left|right]. split; [exact H|]. intros ->.
-      assert (t' = t) by (eapply i_excl; right; eauto). congruence. }
+  assert (HX : X_cl (push_rec g r) a tr) by (apply (X_transfer0 g a tr _ a (X_of_inv _ _ _ _ HI)); auto).
+  destruct HI. xbullets HX.
   apply mkInv.
   - exact i_slot.
   - exact i_zero_unowned.
   - intros r' j H. apply i_zero_unlisted. intros Hin. apply H. cbn. now right.
   - exact i_zero_hi.
   - intros r' [<-|H]; [exact Hlt|auto].
-  - intros t' r' H. unfold a' in H. vcase t' t.
-    + cbn in H. inversion H; subst r'. split; [exact Howner|cbn; now left].
-    + destruct (i_rec t' r' H) as (H1 & H2). split; [exact H1|cbn; now right].
-  - intros t' r' H. apply Hh in H. destruct H as (H & _). apply (i_held t' r' H).
-  - intros t1 t2 r' H1 H2. apply Ho in H1. apply Ho in H2. eauto.
-  - intros t'. destruct (i_self t') as (H1 & H2). unfold a'. vcase t' t; [cbn|auto]. split.
-    + now apply NoDup_remove_eq.
-    + intros r' H Hin'. inversion H; subst r'. apply in_remove_iff in Hin'. tauto.
-  - intros t' r' j H1 H2. unfold a' in H1, H2. vcase t' t; [cbn in H2; lia|eauto].
-  - intros r' H. destruct (Nat.eq_dec r' r) as [->|Hne]; [left; cbn; now left|].
-    destruct (i_unl r' H) as [H1|(t' & H1)]; [left; cbn; now right|right]. exists t'. apply Hh. now split.
-  - intros t' r' H. rewrite Hvn in H. cbn. right. eauto.
-  - intros t' cl H. rewrite Hvc in H. destruct (i_claim t' cl H) as (H1 & H2). split; [now apply Ho|].
-    destruct cl; exact H2.
-  - intros t'. rewrite Hvc. auto.
-  - intros r' x H. destruct (i_eff r' x H) as (t' & cl & H1 & H2). exists t', cl. now rewrite Hvc.
+  - intros t' r' H. destruct (i_rec t' r' H) as (H1 & H2). split; [exact H1|cbn; now right].
+  - exact i_held.
+  - exact i_excl.
+  - exact i_self.
+  - exact i_clr.
+  - intros r' H. destruct (i_unl r' H) as [H1|H1]; [left; cbn; now right|now right].
+  - intros t' r' H. cbn. right. eauto.
+  - exact i_claim.
+  - exact i_claim_nd.
+  - exact i_eff.
   - intros p. rewrite i_bal. f_equal. symmetry. apply pend_ext; [reflexivity|]. intros; reflexivity.
-  - intros t' sv H. rewrite Hvs in H. eauto.
+  - exact i_cov.
   - exact i_safe.
   - exact i_kept.
-  - intros t' H. specialize (i_idle t' H). unfold a'. vcase t' t; [|exact i_idle].
-    destruct i_idle as (E & _). rewrite E in Hheld. destruct Hheld.
+  - exact i_idle.
   - exact i_retd.
-  - intros t' sv r' s H1 H2 H3 p Hp. rewrite Hvs in H1.
-    assert (H2' : v_rec (view a t') = Some r').
-    { unfold a' in H2. vcase t' t; [congruence|exact H2]. }
-    apply (i_retd_scan t' sv r' s H1 H2' H3 p). exact Hp.
+  - exact i_retd_scan.
   - exact i_pre.
-  - intros t' sv H. rewrite Hvs in H. eapply collsz_ok_mono; [eauto|]. cbn. lia.
-  - apply (size_cl_transfer c g a tr g' a' tr i_size); [cbn; lia|intros; lia|intros; apply le_n|].
-    intros t' cl H. now rewrite Hvc.
-  - apply (noovf_cl_transfer c g tr g' tr i_noovf); [cbn; lia|intros; lia|reflexivity].
+  - intros t' sv H. eapply collsz_ok_mono; [eauto|]. cbn. lia.
+  - apply (size_cl_transfer c g a tr (push_rec g r) a tr i_size); [cbn; lia|intros; lia|intros; apply le_n|auto].
+  - apply (noovf_cl_transfer c g tr (push_rec g r) tr i_noovf); [cbn; lia|intros; lia|reflexivity].
+  - exact HX1.
+  - exact HX2.
+  - exact HX3.
+  - exact HX4.
+  - exact HX5.
 Qed.
+
 
 (** ** 8. steps on retired arrays: the owner changes its claims, the effective contents, the cells *)
 Definition mild (e : ev) : bool :=
@@ -1173,7 +1340,7 @@ Proof.
   apply nth_error_In in Hk. destruct (mild_parts _ (Hq _ Hk)) as (_ & _ & H). discriminate.
 Qed.
 
-Definition with_cl (v : lview) (cl : list claim) : lview := mkV (v_rec v) (v_held v) (v_clr v) (v_scan v) cl (v_seen v).
+Definition with_cl (v : lview) (cl : list claim) : lview := mkV (v_rec v) (v_held v) (v_clr v) (v_scan v) cl (v_seen v) (v_op v) (v_val v).
 Definition set_claims (a : Aux) (t : nat) (cl : list claim) (eff : nat -> option (list Z)) : Aux :=
   mkAux (a_view (upd_view a t (with_cl (view a t) cl))) eff.
 
@@ -1216,9 +1383,14 @@ Lemma inv_claims c g a tr t g' eff' cl' es :
   (ovf_cond c g' (tr ++ Conc.tag t es) -> forall r, owns (view a t) r ->
      List.length (r_ret (get_rec g' r)) < cR c \/ exists cl, In cl cl' /\ shrinking_claim_on r cl) ->
   (ovf_cond c g' (tr ++ Conc.tag t es) -> forall p, cnt "overflow" p (Conc.tag t es) = 0%Z) ->
+  (forall e, In e es -> inert e = true) -> (forall k, g_srcs g' k = g_srcs g k) ->
   Inv c g' a' (tr ++ Conc.tag t es).
 Proof.
-  intros HI Hlist Hlen Hos Hother a' Hcl Hnd Heff Hm Hbal Hsafe Hidle Hretd_t Hrs_t Hpre Hsz_t Hnoovf.
+  intros HI Hlist Hlen Hos Hother a' Hcl Hnd Heff Hm Hbal Hsafe Hidle Hretd_t Hrs_t Hpre Hsz_t Hnoovf Hinert Hsrcs.
+  assert (HX : X_cl g' a' (tr ++ Conc.tag t es)).
+  { apply (X_transfer g a tr g' a' t es (X_of_inv _ _ _ _ HI) Hinert); [|exact Hsrcs].
+    intros t'. unfold a'. destruct (Nat.eq_dec t' t) as [->|Hne];
+      [rewrite view_set_claims_same|rewrite view_set_claims_other by exact Hne]; cbn; auto. }
   assert (Hs : forall r j, gslot g' r j = gslot g r j).
   { intros r j. unfold gslot. destruct (Hos r) as (_ & ->). reflexivity. }
   assert (Ho : forall r, r_owner (get_rec g' r) = r_owner (get_rec g r)) by (intros r; apply Hos).
@@ -1239,7 +1411,7 @@ Proof.
       [rewrite view_set_claims_same|rewrite view_set_claims_other by exact Hne]; reflexivity. }
   assert (Hoo : forall t' r, owns (view a' t') r <-> owns (view a t') r).
   { intros t' r. unfold owns. rewrite Hvr, Hvh. tauto. }
-  destruct HI.
+  destruct HI. xbullets HX.
   apply mkInv.
   - intros r j. rewrite slot_at_mild by exact Hm. rewrite Hs. auto.
   - intros r j H. rewrite Hs. rewrite Ho in H. auto.
@@ -1312,6 +1484,11 @@ Proof.
       * unfold a'. rewrite view_set_claims_other by exact Hne. exact H1.
   - intros Hcond p. rewrite cnt_app, (Hnoovf Hcond p), Z.add_0_r. apply i_noovf.
     eapply ovf_cond_weaken; [exact Hcond|rewrite Hlist; apply le_n|intros q; apply cnt_le_app].
+  - exact HX1.
+  - exact HX2.
+  - exact HX3.
+  - exact HX4.
+  - exact HX5.
 Qed.
 
 Definition set_eff (eff : nat -> option (list Z)) (r : nat) (o : option (list Z)) : nat -> option (list Z) :=
@@ -1348,9 +1525,10 @@ Lemma inv_claim1 c g a tr t r g' co cn rest neweff es :
   (ovf_cond c g' (tr ++ Conc.tag t es) ->
      List.length (r_ret (get_rec g' r)) < cR c \/ exists cl, In cl cn /\ shrinking_claim_on r cl) ->
   (ovf_cond c g' (tr ++ Conc.tag t es) -> forall p, cnt "overflow" p (Conc.tag t es) = 0%Z) ->
+  (forall e, In e es -> inert e = true) -> (forall k, g_srcs g' k = g_srcs g k) ->
   Inv c g' a' (tr ++ Conc.tag t es).
 Proof.
-  intros HI Hown Hlist Hlen Hos Hret Hcl Hco Hrest Hcn Hcn1 a' Hok Hne Hm Hbal Hsafe Hidle Hsub Hpre Hsz Hnoovf.
+  intros HI Hown Hlist Hlen Hos Hret Hcl Hco Hrest Hcn Hcn1 a' Hok Hne Hm Hbal Hsafe Hidle Hsub Hpre Hsz Hnoovf Hinert Hsrcs.
   assert (Hsame : forall r0, r0 <> r -> effc g' a' r0 = effc g a r0).
   { intros r0 Hn0. unfold effc, a'; cbn. rewrite set_eff_other by exact Hn0. now rewrite Hret. }
   apply (inv_claims c g a tr t g' (set_eff (a_eff a) r neweff) (cn ++ rest) es); auto.
@@ -1522,6 +1700,7 @@ Proof.
   - intros Hcond. left.
     apply (size_noclaim c g a tr t r _ HI Hcond); [intros q; apply cnt_le_app|exact Hown|].
     intros cl Hc. apply not_shrinking_other. now apply Hno.
+  - intros e0 [<-|[]]. reflexivity.
 Qed.
 
 (** C2a: current_.load() of an owned array on which the thread holds no claim *)
@@ -1550,6 +1729,7 @@ Proof.
   - intros q Hq. rewrite effc_set_claims_same in Hq. left. unfold effc. now rewrite Hnone.
   - apply pre_cl_nodispose; [exact (i_pre _ _ _ _ HI)|]. intros e q [<-|[]]. discriminate.
   - intros _. right. exists (ClAct r l l). split; [now left|]. exists l, l. split; [reflexivity|apply le_n].
+  - intros e0 [<-|[]]. reflexivity.
 Qed.
 
 (** C2b: the load inside retired_array::push after the retire was announced *)
@@ -1584,6 +1764,7 @@ Proof.
     apply (size_noclaim c g a tr t r _ HI Hcond); [intros q; apply cnt_le_app|exact Hown|].
     intros cl Hc. rewrite Hcl in Hc. destruct Hc as [<-|Hc]; [intros (act & eff & E & _); discriminate|].
     apply not_shrinking_other. intros E. apply Hnin. rewrite <- E. now apply in_map.
+  - intros e0 [<-|[]]. reflexivity.
 Qed.
 
 (** C3/C4: the store (or exchange) of current_ that makes the effective content actual *)
@@ -1626,6 +1807,8 @@ Proof.
   - apply pre_cl_nodispose; [exact (i_pre _ _ _ _ HI)|]. intros e0 q [<-|[]]. discriminate.
   - intros Hcond. left. rewrite H5. now apply Hsz.
   - intros _ q. apply cnt_tag_acc.
+  - intros e0 [<-|[]]. unfold inert. cbn. destruct k; try reflexivity. congruence.
+  - reflexivity.
 Qed.
 
 (** the store of current_ by a push that fills the array: the claim is kept (the scan that follows owns the cells) *)
@@ -1667,6 +1850,8 @@ Proof.
   - apply pre_cl_nodispose; [exact (i_pre _ _ _ _ HI)|]. intros e0 q [<-|[]]. discriminate.
   - intros _. right. exists (ClAct r e e). split; [now left|]. exists e, e. split; [reflexivity|apply le_n].
   - intros _ q. apply cnt_tag_acc.
+  - intros e0 [<-|[]]. unfold inert. cbn. destruct k; try reflexivity. congruence.
+  - reflexivity.
 Qed.
 
 (** C5: push past the capacity: the announced entry is dropped *)
@@ -1720,6 +1905,8 @@ Proof.
       - intros (act & eff & E & Hle). inversion E; subst. rewrite app_length in Hle. cbn in Hle. lia.
       - apply not_shrinking_other. intros E. apply Hnin. rewrite <- E. now apply in_map. }
     lia.
+  - intros e0 [<-|[]]. reflexivity.
+  - reflexivity.
 Qed.
 
 (** ** 9. scan markers *)
@@ -1767,7 +1954,9 @@ Qed.
 Lemma inv_trace_sb c g a tr t r :
   Inv c g a tr -> v_scan (view a t) = None -> Inv c g a (tr ++ Conc.tag t (sb_evs r)).
 Proof.
-  intros HI Hns. destruct HI.
+  intros HI Hns. assert (HX : X_cl g a (tr ++ Conc.tag t (sb_evs r))).
+  { apply (X_transfer g a tr g a t _ (X_of_inv _ _ _ _ HI)); [intros e [<-|[<-|[]]]; reflexivity|auto|auto]. }
+  destruct HI. xbullets HX.
   assert (Hnoslot : forall e, In e (sb_evs r) -> is_cli_named "g_slot" e = false) by (intros e [<-|[<-|[]]]; reflexivity).
   assert (Hnoend : forall e, In e (sb_evs r) -> is_cli_named "g_scan_end" e = false) by (intros e [<-|[<-|[]]]; reflexivity).
   apply mkInv.
@@ -1812,9 +2001,14 @@ Proof.
   - apply (size_cl_transfer c g a tr g a _ i_size); [apply le_n|intros p; apply cnt_le_app|intros; apply le_n|auto].
   - apply (noovf_cl_transfer c g tr g _ i_noovf); [apply le_n|intros p; apply cnt_le_app|].
     intros p. rewrite cnt_app. unfold sb_evs, cnt, Conc.tag. cbn. lia.
+  - exact HX1.
+  - exact HX2.
+  - exact HX3.
+  - exact HX4.
+  - exact HX5.
 Qed.
 
-Definition with_scan (v : lview) (o : option scanv) : lview := mkV (v_rec v) (v_held v) (v_clr v) o (v_cl v) (v_seen v).
+Definition with_scan (v : lview) (o : option scanv) : lview := mkV (v_rec v) (v_held v) (v_clr v) o (v_cl v) (v_seen v) (v_op v) (v_val v).
 
 (** ... and the whole step *)
 Lemma inv_scan_begin c g a tr t r :
@@ -1839,7 +2033,9 @@ Proof.
   intros HI Hsv Hincl.
   assert (Hnr : ~ resp_last (tr ++ Conc.tag t [ev_scan_end r kept]) t).
   { intros H. apply (resp_last_same tr t [] (ev_scan_end r kept)) in H. discriminate. }
-  destruct HI.
+  assert (HX : X_cl g a (tr ++ Conc.tag t [ev_scan_end r kept])).
+  { apply (X_transfer g a tr g a t _ (X_of_inv _ _ _ _ HI)); [intros e [<-|[]]; reflexivity|auto|auto]. }
+  destruct HI. xbullets HX.
   assert (Hnoslot : forall e, In e [ev_scan_end r kept] -> is_cli_named "g_slot" e = false) by (intros e [<-|[]]; reflexivity).
   assert (Hnosb : forall e, In e [ev_scan_end r kept] -> is_cli_named "g_scan_begin" e = false) by (intros e [<-|[]]; reflexivity).
   apply mkInv.
@@ -1881,6 +2077,11 @@ Proof.
   - apply (noovf_cl_transfer c g tr g _ i_noovf); [apply le_n|intros p; apply cnt_le_app|].
     intros p. rewrite cnt_app. rewrite (cnt_tag_none "overflow" p t [ev_scan_end r kept]); [lia|].
     intros e [<-|[]]. destruct kept as [|x l]; reflexivity.
+  - exact HX1.
+  - exact HX2.
+  - exact HX3.
+  - exact HX4.
+  - exact HX5.
 Qed.
 
 Lemma inv_scan_end c g a tr t r kept sv :
@@ -1951,6 +2152,8 @@ Proof.
   - exact Hpre.
   - intros _. right. exists (ClAct r l kept). split; [now left|]. exists l, kept. split; [reflexivity|exact Hlen].
   - intros _ q. apply cnt_overflow_dispose_list.
+  - intros e0 He. apply in_map_iff in He. destruct He as (x0 & <- & _). reflexivity.
+  - reflexivity.
 Qed.
 
 Lemma retire_once_dispose_ext tr t l : retire_once (tr ++ Conc.tag t (map ev_dispose l)) -> retire_once tr.
@@ -2089,10 +2292,12 @@ Proof.
       destruct H2 as (act & eff & E & Hle). inversion E; subst act eff. exists srcl, tl. split; [reflexivity|]. cbn in Hle. lia.
     + exists cl. split; [right; now right|exact H2].
   - intros _ q. apply cnt_tag_acc.
+  - intros e0 [<-|[]]. reflexivity.
+  - reflexivity.
 Qed.
 
 (** ** 12. progress of stage 1 *)
-Definition with_seen (v : lview) (l : list nat) : lview := mkV (v_rec v) (v_held v) (v_clr v) (v_scan v) (v_cl v) l.
+Definition with_seen (v : lview) (l : list nat) : lview := mkV (v_rec v) (v_held v) (v_clr v) (v_scan v) (v_cl v) l (v_op v) (v_val v).
 
 Lemma inv_set_seen c g a tr t :
   Inv c g a tr -> Inv c g (upd_view a t (with_seen (view a t) (g_list g))) tr.
@@ -2105,7 +2310,7 @@ Proof.
 Qed.
 
 Definition scan_view (v : lview) (sv : scanv) (seen : list nat) : lview :=
-  mkV (v_rec v) (v_held v) (v_clr v) (Some sv) (v_cl v) seen.
+  mkV (v_rec v) (v_held v) (v_clr v) (Some sv) (v_cl v) seen (v_op v) (v_val v).
 
 (** generic: the scanning thread replaces its scan view by one whose coverage follows from the old one *)
 Lemma inv_scan_step c g a tr t sv sv' seen :
@@ -2225,4 +2430,358 @@ Proof.
   assert (Hl : List.length coll' <= S (List.length coll)).
   { unfold coll'. destruct (Z.eqb v0 0); [lia|]. rewrite app_length. cbn. lia. }
   unfold pos_sv. destruct (Nat.ltb_spec (S k) (cH c)); cbn [sc_todo sc_cur sc_coll]; cbn [List.length] in *; nia.
+Qed.
+
+(** ** 13. steps that the trace clauses about operations, last stores and sources look at *)
+Lemma same_g_irrel g :
+  g_list g = g_list g /\ List.length (g_recs g) = List.length (g_recs g) /\
+  (forall r, r_owner (get_rec g r) = r_owner (get_rec g r) /\ r_slots (get_rec g r) = r_slots (get_rec g r) /\
+             r_ret (get_rec g r) = r_ret (get_rec g r)).
+Proof. repeat split. Qed.
+
+Lemma X_views_same g a tr t o val :
+  X_cl g a tr -> forall t', t' <> t -> 
+  v_rec (view (upd_view a t (with_x (view a t) o val)) t') = v_rec (view a t') /\
+  v_op (view (upd_view a t (with_x (view a t) o val)) t') = v_op (view a t') /\
+  v_val (view (upd_view a t (with_x (view a t) o val)) t') = v_val (view a t').
+Proof. intros _ t' Hne. rewrite view_upd_other by exact Hne. auto. Qed.
+
+(** one client event that starts an operation: the thread records it *)
+Lemma inv_emit_open c g a tr t e :
+  Inv c g a tr -> neutral e = true -> xplain e = true -> is_opstart e = true -> is_resp e = false ->
+  Inv c g (upd_view a t (with_x (view a t) (Some e) (v_val (view a t)))) (tr ++ Conc.tag t [e]).
+Proof.
+  intros HI Hn Hx Hos Hnr. destruct (same_g_irrel g) as (E1 & E2 & E3).
+  apply (inv_quiet_step c g g a tr t [e]); auto.
+  - intros e0 [<-|[]]. exact Hn.
+  - intros es' e0 He Hr. exfalso. assert (e0 = e) by (destruct es' as [|y es'']; cbn in He; inversion He; auto; destruct es''; discriminate).
+    subst e0. congruence.
+  - destruct (X_of_inv _ _ _ _ HI) as (X1 & X2 & X3 & X4 & X5).
+    assert (Hxl : forall e0, In e0 [e] -> xplain e0 = true) by (intros e0 [<-|[]]; exact Hx).
+    split; [|split; [|split; [|split]]].
+    + now apply TrOK_xplain.
+    + intros t'. rewrite att_at_xplain by exact Hxl. rewrite X2. vcase t' t; reflexivity.
+    + intros t' e0 Ho. vcase t' t.
+      * cbn in Ho. inversion Ho; subst e0. rewrite open_op_same. unfold op_fold. cbn. unfold op_upd. now rewrite Hos.
+      * rewrite open_op_other by assumption. now apply X3.
+    + intros t' r j x ok Hv. apply val_pat_ext; [|right; intros e0 He0; apply xplain_pat_ok; auto].
+      eapply X4. vcase t' t; exact Hv.
+    + intros k. rewrite src_at_xplain by exact Hxl. apply X5.
+Qed.
+
+(** events after which no operation is open (a response), or that do not matter for it: the record is cleared *)
+Lemma inv_emit_close c g a tr t es :
+  Inv c g a tr -> (forall e, In e es -> neutral e = true) -> (forall e, In e es -> xplain e = true) ->
+  (forall es' e, es = es' ++ [e] -> is_resp e = true -> idle (view a t)) ->
+  Inv c g (upd_view a t (with_x (view a t) None (v_val (view a t)))) (tr ++ Conc.tag t es).
+Proof.
+  intros HI Hn Hx Hr. destruct (same_g_irrel g) as (E1 & E2 & E3).
+  apply (inv_quiet_step c g g a tr t es); auto.
+  destruct (X_of_inv _ _ _ _ HI) as (X1 & X2 & X3 & X4 & X5).
+  split; [|split; [|split; [|split]]].
+  - now apply TrOK_xplain.
+  - intros t'. rewrite att_at_xplain by exact Hx. rewrite X2. vcase t' t; reflexivity.
+  - intros t' e0 Ho. vcase t' t; [discriminate|]. rewrite open_op_other by assumption. now apply X3.
+  - intros t' r j x ok Hv. apply val_pat_ext; [|right; intros e0 He0; apply xplain_pat_ok; auto].
+    eapply X4. vcase t' t; exact Hv.
+  - intros k. rewrite src_at_xplain by exact Hx. apply X5.
+Qed.
+
+(** the exchange on a client source *)
+Definition xchg_evs (k : nat) (o old : Z) : list ev :=
+  [EvAcc KXchg (obj_src k) true; EvCli "g_src" [zn k; o; old]; EvCli "unlinked" [old]].
+Definition xchg_state (g : G) (k : nat) (o : Z) : G :=
+  mkG (g_list g) (g_recs g) (fun i => if Nat.eqb i k then o else g_srcs g i).
+
+Lemma inv_xchg_src c g a tr t k o :
+  Inv c g a tr -> v_op (view a t) = Some (EvCli "publish" [zn k; o]) -> idle (view a t) ->
+  Inv c (xchg_state g k o) (upd_view a t (with_x (view a t) None (v_val (view a t))))
+      (tr ++ Conc.tag t (xchg_evs k o (g_srcs g k))).
+Proof.
+  intros HI Hop Hidle. set (old := g_srcs g k).
+  apply (inv_quiet_step c g (xchg_state g k o) a tr t (xchg_evs k o old)); try reflexivity.
+  - exact HI.
+  - intros r. auto.
+  - intros e [<-|[<-|[<-|[]]]]; reflexivity.
+  - intros; exact Hidle.
+  - destruct (X_of_inv _ _ _ _ HI) as (X1 & X2 & X3 & X4 & X5).
+    assert (Eatt : forall t', att_at (tr ++ Conc.tag t (xchg_evs k o old)) t' = att_at tr t').
+    { intros t'. rewrite att_at_app. cbn. unfold att_step. cbn. destruct (Nat.eqb t t'); reflexivity. }
+    split; [|split; [|split; [|split]]].
+    + apply TrOK_ext; [exact X1|]. intros k0 u e Hk0. apply nth_error_tag in Hk0. destruct Hk0 as (-> & Hk0).
+      destruct k0 as [|[|[|k0]]]; cbn in Hk0; try (destruct k0; discriminate); inversion Hk0; subst e; unfold xchg_evs; cbn [firstn Conc.tag map].
+      * apply xplain_ev_ok. reflexivity.
+      * unfold ev_ok, ev_slot, ev_det, ev_att. repeat split; intros; try discriminate.
+        -- match goal with E : EvCli _ _ = EvCli _ _ |- _ => inversion E as [[Ek Eo Eold]] end. apply zn_inj in Ek. subst.
+           rewrite src_at_snoc. cbn. symmetry. apply X5.
+        -- match goal with E : EvCli _ _ = EvCli _ _ |- _ => inversion E as [[Ek Eo Eold]] end. apply zn_inj in Ek. subst.
+           rewrite open_op_snoc. unfold op_step. cbn. rewrite Nat.eqb_refl. cbn. now apply X3.
+      * unfold ev_ok, ev_slot, ev_det, ev_att. repeat split; intros; try discriminate.
+        -- match goal with E : EvCli _ _ = EvCli _ _ |- _ => inversion E end. subst.
+           exists k, o. split; [destruct tr; discriminate|].
+           unfold last_te. rewrite app_length. cbn. replace (List.length tr + 2 - 1) with (S (List.length tr)) by lia.
+           rewrite nth_error_app2 by lia. replace (S (List.length tr) - List.length tr) with 1 by lia. reflexivity.
+    + intros t'. rewrite Eatt, X2. vcase t' t; reflexivity.
+    + intros t' e0 Ho. vcase t' t; [discriminate|]. rewrite open_op_other by assumption. now apply X3.
+    + intros t' r j x ok Hv. apply val_pat_ext.
+      * eapply X4. vcase t' t; exact Hv.
+      * right. intros e [<-|[<-|[<-|[]]]]; reflexivity.
+    + intros k'. rewrite src_at_app. cbn. rewrite X5. unfold old.
+      destruct (Nat.eqb_spec k' k) as [->|Hne]; [now rewrite Z.eqb_refl|].
+      destruct (Z.eqb_spec (zn k) (zn k')) as [E|E]; [apply zn_inj in E; congruence|reflexivity].
+Qed.
+
+(** a load of a client source; if the thread's last slot store put there the value now read, the store is validated *)
+Definition ld_src_evs (k : nat) (x : Z) : list ev := [EvAcc KLd (obj_src k) true; EvCli "g_ld" [zn k; x]].
+
+Lemma inv_ld_src c g a tr t k newval :
+  Inv c g a tr ->
+  (newval = v_val (view a t) \/
+   exists r j ok, v_val (view a t) = Some (r, j, g_srcs g k, ok) /\ newval = Some (r, j, g_srcs g k, Some k)) ->
+  Inv c g (upd_view a t (with_x (view a t) (v_op (view a t)) newval)) (tr ++ Conc.tag t (ld_src_evs k (g_srcs g k))).
+Proof.
+  intros HI Hnv. destruct (same_g_irrel g) as (E1 & E2 & E3). set (x := g_srcs g k) in *.
+  apply (inv_quiet_step c g g a tr t (ld_src_evs k x)); auto.
+  - intros e [<-|[<-|[]]]; reflexivity.
+  - intros es' e He Hr. exfalso.
+    assert (e = EvCli "g_ld" [zn k; x]).
+    { unfold ld_src_evs in He. destruct es' as [|y [|z l]]; cbn in He; inversion He; auto. destruct l; discriminate. }
+    subst e. discriminate.
+  - destruct (X_of_inv _ _ _ _ HI) as (X1 & X2 & X3 & X4 & X5).
+    assert (Eatt : forall t', att_at (tr ++ Conc.tag t (ld_src_evs k x)) t' = att_at tr t').
+    { intros t'. rewrite att_at_app. cbn. unfold att_step. cbn. destruct (Nat.eqb t t'); reflexivity. }
+    assert (Eop : forall t', open_op (tr ++ Conc.tag t (ld_src_evs k x)) t' = open_op tr t').
+    { intros t'. rewrite open_op_app. cbn. unfold op_step. cbn. destruct (Nat.eqb t t'); reflexivity. }
+    assert (Hpat : forall e, In e (ld_src_evs k x) -> pat_ok e = true) by (intros e [<-|[<-|[]]]; reflexivity).
+    split; [|split; [|split; [|split]]].
+    + apply TrOK_ext; [exact X1|]. intros k0 u e Hk0. apply nth_error_tag in Hk0. destruct Hk0 as (-> & Hk0).
+      destruct k0 as [|[|k0]]; cbn in Hk0; try (destruct k0; discriminate); inversion Hk0; subst e; unfold ld_src_evs; cbn [firstn Conc.tag map].
+      * apply xplain_ev_ok. reflexivity.
+      * unfold ev_ok, ev_slot, ev_det, ev_att. repeat split; intros; try discriminate.
+        match goal with E : EvCli _ _ = EvCli _ _ |- _ => inversion E as [[Ek Ex]] end. apply zn_inj in Ek. subst.
+        rewrite src_at_snoc. cbn. symmetry. apply X5.
+    + intros t'. rewrite Eatt, X2. vcase t' t; reflexivity.
+    + intros t' e0 Ho. rewrite Eop. apply X3. vcase t' t; exact Ho.
+    + intros t' r j x0 ok Hv. vcase t' t.
+      * cbn in Hv. destruct Hnv as [->|(r1 & j1 & ok1 & Hold & ->)].
+        -- apply val_pat_ext; [eapply X4; eauto|right; exact Hpat].
+        -- inversion Hv; subst r j x0 ok. destruct (X4 t r1 j1 x ok1 Hold) as (g0 & Hg & Hall & _).
+           assert (Hlt : g0 < List.length tr) by (apply nth_error_Some; congruence).
+           exists g0. split; [rewrite nth_error_app1 by exact Hlt; exact Hg|]. split.
+           ++ intros i e Hi Hn. destruct (Nat.lt_ge_cases i (List.length tr)) as [H1|H1].
+              ** rewrite nth_error_app1 in Hn by exact H1. eapply Hall; eauto.
+              ** rewrite nth_error_app2 in Hn by exact H1. apply nth_error_tag in Hn. destruct Hn as (_ & Hn).
+                 apply Hpat. eapply nth_error_In; eauto.
+           ++ exists (S (List.length tr)). split; [lia|]. rewrite nth_error_app2 by lia.
+              replace (S (List.length tr) - List.length tr) with 1 by lia. reflexivity.
+      * apply val_pat_ext; [eapply X4; eauto|now left].
+    + intros k'. rewrite src_at_app. cbn. apply X5.
+Qed.
+
+(** protect() returns: the slot store was validated *)
+Lemma inv_emit_protected c g a tr t r j p k :
+  Inv c g a tr -> v_val (view a t) = Some (r, j, p, Some k) -> idle (view a t) ->
+  Inv c g (upd_view a t (with_x (view a t) None (v_val (view a t)))) (tr ++ Conc.tag t [EvCli "protected" [zn j; p]]).
+Proof.
+  intros HI Hval Hidle. destruct (same_g_irrel g) as (E1 & E2 & E3).
+  apply (inv_quiet_step c g g a tr t [EvCli "protected" [zn j; p]]); auto.
+  - intros e [<-|[]]; reflexivity.
+  - destruct (X_of_inv _ _ _ _ HI) as (X1 & X2 & X3 & X4 & X5).
+    set (es := [EvCli "protected" [zn j; p]]).
+    assert (Eatt : forall t', att_at (tr ++ Conc.tag t es) t' = att_at tr t').
+    { intros t'. rewrite att_at_app. cbn. unfold att_step. cbn. destruct (Nat.eqb t t'); reflexivity. }
+    split; [|split; [|split; [|split]]].
+    + apply TrOK_ext; [exact X1|]. intros k0 u e Hk0. apply nth_error_tag in Hk0. destruct Hk0 as (-> & Hk0).
+      destruct k0 as [|k0]; cbn in Hk0; [|destruct k0; discriminate]. inversion Hk0; subst e. cbn [firstn Conc.tag map]. rewrite app_nil_r.
+      unfold ev_ok, ev_slot, ev_det, ev_att. repeat split; intros; try discriminate.
+      match goal with E : EvCli _ _ = EvCli _ _ |- _ => inversion E as [[Ej Ep]] end. apply zn_inj in Ej. subst.
+      exists r, k. eapply X4; eauto.
+    + intros t'. rewrite Eatt, X2. vcase t' t; reflexivity.
+    + intros t' e0 Ho. vcase t' t; [discriminate|]. rewrite open_op_other by assumption. now apply X3.
+    + intros t' r0 j0 x0 ok Hv. apply val_pat_ext.
+      * eapply X4. vcase t' t; exact Hv.
+      * right. intros e [<-|[]]; reflexivity.
+    + intros k'. rewrite src_at_app. cbn. apply X5.
+Qed.
+
+(** ** 14. attachment and detachment (ghost events g_att / g_det) *)
+Definition att_view (v : lview) (r : nat) : lview :=
+  mkV (Some r) (remove Nat.eq_dec r (v_held v)) 0 (v_scan v) (v_cl v) (v_seen v) (v_op v) None.
+Definition det_view (v : lview) (r : nat) : lview :=
+  mkV None (r :: v_held v) 0 (v_scan v) (v_cl v) (r :: v_seen v) (v_op v) None.
+
+Lemma ghost1_quiet e : In e [ev_att 0] \/ True -> True. Proof. auto. Qed.
+
+(** the thread holds record r (claimed by the reuse CAS, or created and pushed): it becomes its attached record *)
+Lemma inv_emit_att c g a tr t r :
+  Inv c g a tr -> v_rec (view a t) = None -> v_scan (view a t) = None -> In r (v_held (view a t)) -> In r (g_list g) ->
+  Inv c g (upd_view a t (att_view (view a t) r)) (tr ++ Conc.tag t [ev_att r]).
+Proof.
+  intros HI Hnone Hnoscan Hheld Hin.
+  destruct (i_held _ _ _ _ HI t r Hheld) as (Hlt & Howner & Hzero).
+  set (es := [ev_att r]). set (a' := upd_view a t (att_view (view a t) r)).
+  assert (Hn : forall e, In e es -> neutral e = true) by (intros e [<-|[]]; reflexivity).
+  assert (Hq : forall e, In e es -> quiet e = true) by (intros e [<-|[]]; reflexivity).
+  assert (Hvc : forall t', v_cl (view a' t') = v_cl (view a t')) by (intros t'; unfold a'; vcase t' t; reflexivity).
+  assert (Hvs : forall t', v_scan (view a' t') = v_scan (view a t')) by (intros t'; unfold a'; vcase t' t; reflexivity).
+  assert (Hvn : forall t', v_seen (view a' t') = v_seen (view a t')) by (intros t'; unfold a'; vcase t' t; reflexivity).
+  assert (Hex : forall t', t' <> t -> ~ owns (view a t') r).
+  { intros t' Hne Ho. apply Hne. eapply (i_excl _ _ _ _ HI); [exact Ho|right; exact Hheld]. }
+  assert (Hh : forall t' r', In r' (v_held (view a' t')) <-> In r' (v_held (view a t')) /\ r' <> r).
+  { intros t' r'. unfold a'. vcase t' t; [cbn; apply in_remove_iff|].
+    split; [|tauto]. intros H. split; [exact H|]. intros ->. eapply Hex; [eassumption|right; exact H]. }
+  assert (Ho : forall t' r', owns (view a' t') r' <-> owns (view a t') r').
+  { intros t' r'. unfold owns. rewrite Hh. unfold a'. vcase t' t.
+    - cbn. rewrite Hnone. split.
+      + intros [H|(H & _)]; [inversion H; subst; now right|now right].
+      + intros [H|H]; [discriminate|]. destruct (Nat.eq_dec r' r) as [->|Hne]; [now left|right; now split].
+    - split; [tauto|]. intros [H|H]; [now left|right]. split; [exact H|]. intros ->.
+      eapply Hex; [eassumption|right; exact H]. }
+  assert (HX : X_cl g a' (tr ++ Conc.tag t es)).
+  { destruct (X_of_inv _ _ _ _ HI) as (X1 & X2 & X3 & X4 & X5).
+    split; [|split; [|split; [|split]]].
+    - apply TrOK_ext; [exact X1|]. intros k0 u e Hk0. apply nth_error_tag in Hk0. destruct Hk0 as (-> & Hk0).
+      destruct k0 as [|k0]; cbn in Hk0; [|destruct k0; discriminate]. inversion Hk0; subst e. cbn [firstn Conc.tag map]. rewrite app_nil_r.
+      unfold ev_ok, ev_slot, ev_det, ev_att. repeat split; intros; try discriminate.
+      + rewrite X2. exact Hnone.
+      + match goal with E : EvCli _ _ = EvCli _ _ |- _ => inversion E as [Er] end. apply zn_inj in Er. subst.
+        rewrite X2. intros Hc. destruct (Nat.eq_dec t' t) as [->|Hne]; [congruence|]. eapply Hex; [exact Hne|left; exact Hc].
+    - intros t'. unfold a'. vcase t' t.
+      + rewrite att_at_app. cbn. unfold att_step. cbn. rewrite Nat.eqb_refl. cbn. unfold zn. now rewrite Nat2Z.id.
+      + rewrite att_at_other by assumption. apply X2.
+    - intros t' e0 Ho0. unfold a' in Ho0. vcase t' t.
+      + cbn in Ho0. rewrite open_op_same. unfold op_fold. cbn. now apply X3.
+      + rewrite open_op_other by assumption. now apply X3.
+    - intros t' r0 j0 x0 ok Hv. unfold a' in Hv. vcase t' t; [discriminate|].
+      apply val_pat_ext; [eapply X4; eauto|now left].
+    - intros k. rewrite src_at_app. cbn. apply X5. }
+  destruct HI. xbullets HX.
+  apply mkInv.
+  - intros r' j. rewrite slot_at_neutral by exact Hn. auto.
+  - exact i_zero_unowned.
+  - exact i_zero_unlisted.
+  - exact i_zero_hi.
+  - exact i_list_lt.
+  - intros t' r' H. unfold a' in H. vcase t' t; [cbn in H; inversion H; subst r'; auto|eauto].
+  - intros t' r' H. apply Hh in H. destruct H as (H & _). apply (i_held t' r' H).
+  - intros t1 t2 r' H1 H2. apply Ho in H1. apply Ho in H2. eauto.
+  - intros t'. destruct (i_self t') as (H1 & H2). unfold a'. vcase t' t; [cbn|auto]. split.
+    + now apply NoDup_remove_eq.
+    + intros r' H Hin'. inversion H; subst r'. apply in_remove_iff in Hin'. tauto.
+  - intros t' r' j H1 H2. unfold a' in H1, H2. vcase t' t; [cbn in H2; lia|eauto].
+  - intros r' H. destruct (Nat.eq_dec r' r) as [->|Hne]; [now left|].
+    destruct (i_unl r' H) as [H1|(t' & H1)]; [now left|right]. exists t'. apply Hh. now split.
+  - intros t' r' H. rewrite Hvn in H. eauto.
+  - intros t' cl H. rewrite Hvc in H. destruct (i_claim t' cl H) as (H1 & H2). split; [now apply Ho|].
+    destruct cl; exact H2.
+  - intros t'. rewrite Hvc. auto.
+  - intros r' x H. destruct (i_eff r' x H) as (t' & cl & H1 & H2). exists t', cl. now rewrite Hvc.
+  - assert (Hb : bal_cl g a (tr ++ Conc.tag t es)) by (apply bal_cl_quiet; auto).
+    intros p. rewrite Hb. f_equal. symmetry. apply pend_ext; [reflexivity|]. intros; reflexivity.
+  - assert (Hc : cov_cl c a (tr ++ Conc.tag t es)) by (apply cov_cl_quiet; auto).
+    intros t' sv H. rewrite Hvs in H. apply (Hc t' sv H).
+  - now apply safe_cl_quiet.
+  - now apply kept_cl_quiet.
+  - intros t' H. destruct (Nat.eq_dec t' t) as [->|Hne].
+    + exfalso. apply (resp_last_same tr t [] (ev_att r)) in H. discriminate.
+    + unfold a'. rewrite view_upd_other by exact Hne. apply i_idle. apply (resp_last_other tr t' t es); [congruence|exact H].
+  - apply (retd_cl_ext g a tr _ i_retd).
+  - intros t' sv r' s H1 H2 H3 p Hp. rewrite Hvs in H1. destruct (Nat.eq_dec t' t) as [->|Hne]; [congruence|].
+    unfold a' in H2. rewrite view_upd_other in H2 by exact Hne.
+    apply (retd_scan_cl_ext g a tr t es i_retd_scan (fun e He0 => quiet_nosb e (Hq e He0)) t' sv r' s H1 H2 H3 p Hp).
+  - apply (pre_cl_nodispose tr t es i_pre). intros e p He0. apply quiet_not_dispose. auto.
+  - intros t' sv H. rewrite Hvs in H. eauto.
+  - apply (size_cl_transfer c g a tr g a' _ i_size); [apply le_n|intros p; apply cnt_le_app|intros; apply le_n|].
+    intros t' cl H. now rewrite Hvc.
+  - apply (noovf_cl_transfer c g tr g _ i_noovf); [apply le_n|intros p; apply cnt_le_app|].
+    intros p. rewrite cnt_app, cnt_overflow_quiet by exact Hq. lia.
+  - exact HX1.
+  - exact HX2.
+  - exact HX3.
+  - exact HX4.
+  - exact HX5.
+Qed.
+
+(** free_thread_data, just before the releasing store: the record (all slots null) is no longer the attached one *)
+Lemma inv_emit_det c g a tr t r :
+  Inv c g a tr -> v_rec (view a t) = Some r -> cH c <= v_clr (view a t) ->
+  v_op (view a t) = Some (EvCli "detach" []) ->
+  Inv c g (upd_view a t (det_view (view a t) r)) (tr ++ Conc.tag t [ev_det r]).
+Proof.
+  intros HI Hrec Hclr Hop.
+  destruct (i_rec _ _ _ _ HI t r Hrec) as (Howner & Hin).
+  assert (Hlt : r < List.length (g_recs g)) by (apply (i_list_lt _ _ _ _ HI); exact Hin).
+  assert (Hzero : forall j, gslot g r j = 0%Z).
+  { intros j. destruct (Nat.lt_ge_cases j (cH c)); [eapply (i_clr _ _ _ _ HI); eauto; lia|now apply (i_zero_hi _ _ _ _ HI)]. }
+  set (es := [ev_det r]). set (a' := upd_view a t (det_view (view a t) r)).
+  assert (Hn : forall e, In e es -> neutral e = true) by (intros e [<-|[]]; reflexivity).
+  assert (Hq : forall e, In e es -> quiet e = true) by (intros e [<-|[]]; reflexivity).
+  assert (Hvc : forall t', v_cl (view a' t') = v_cl (view a t')) by (intros t'; unfold a'; vcase t' t; reflexivity).
+  assert (Hvs : forall t', v_scan (view a' t') = v_scan (view a t')) by (intros t'; unfold a'; vcase t' t; reflexivity).
+  assert (Hnh : ~ In r (v_held (view a t))) by (destruct (i_self _ _ _ _ HI t) as (_ & H); now apply H).
+  assert (Ho : forall t' r', owns (view a' t') r' <-> owns (view a t') r').
+  { intros t' r'. unfold owns, a'. vcase t' t; [|tauto]. cbn. rewrite Hrec. split.
+    - intros [H|[<-|H]]; [discriminate|now left|now right].
+    - intros [H|H]; [inversion H; right; now left|right; now right]. }
+  assert (HX : X_cl g a' (tr ++ Conc.tag t es)).
+  { destruct (X_of_inv _ _ _ _ HI) as (X1 & X2 & X3 & X4 & X5).
+    split; [|split; [|split; [|split]]].
+    - apply TrOK_ext; [exact X1|]. intros k0 u e Hk0. apply nth_error_tag in Hk0. destruct Hk0 as (-> & Hk0).
+      destruct k0 as [|k0]; cbn in Hk0; [|destruct k0; discriminate]. inversion Hk0; subst e. cbn [firstn Conc.tag map]. rewrite app_nil_r.
+      unfold ev_ok, ev_slot, ev_det, ev_att. repeat split; intros; try discriminate. now apply X3.
+    - intros t'. unfold a'. vcase t' t.
+      + rewrite att_at_app. cbn. unfold att_step. cbn. rewrite Nat.eqb_refl. reflexivity.
+      + rewrite att_at_other by assumption. apply X2.
+    - intros t' e0 Ho0. unfold a' in Ho0. vcase t' t.
+      + cbn in Ho0. rewrite open_op_same. unfold op_fold. cbn. now apply X3.
+      + rewrite open_op_other by assumption. now apply X3.
+    - intros t' r0 j0 x0 ok Hv. unfold a' in Hv. vcase t' t; [discriminate|].
+      apply val_pat_ext; [eapply X4; eauto|now left].
+    - intros k. rewrite src_at_app. cbn. apply X5. }
+  destruct HI. xbullets HX.
+  apply mkInv.
+  - intros r' j. rewrite slot_at_neutral by exact Hn. auto.
+  - exact i_zero_unowned.
+  - exact i_zero_unlisted.
+  - exact i_zero_hi.
+  - exact i_list_lt.
+  - intros t' r' H. unfold a' in H. vcase t' t; [discriminate|eauto].
+  - intros t' r' H. unfold a' in H. vcase t' t; [|eauto]. cbn in H. destruct H as [<-|H]; [auto|eauto].
+  - intros t1 t2 r' H1 H2. apply Ho in H1. apply Ho in H2. eauto.
+  - intros t'. destruct (i_self t') as (H1 & H2). unfold a'. vcase t' t; [cbn|auto]. split.
+    + constructor; assumption.
+    + intros r' H. discriminate.
+  - intros t' r' j H1 H2. unfold a' in H1, H2. vcase t' t; [discriminate|eauto].
+  - intros r' H. destruct (i_unl r' H) as [H1|(t' & H1)]; [now left|right]. exists t'.
+    unfold a'. vcase t' t; [cbn; now right|exact H1].
+  - intros t' r' H. unfold a' in H. vcase t' t; [|eauto]. cbn in H. destruct H as [<-|H]; [exact Hin|eauto].
+  - intros t' cl H. rewrite Hvc in H. destruct (i_claim t' cl H) as (H1 & H2). split; [now apply Ho|].
+    destruct cl; exact H2.
+  - intros t'. rewrite Hvc. auto.
+  - intros r' x H. destruct (i_eff r' x H) as (t' & cl & H1 & H2). exists t', cl. now rewrite Hvc.
+  - assert (Hb : bal_cl g a (tr ++ Conc.tag t es)) by (apply bal_cl_quiet; auto).
+    intros p. rewrite Hb. f_equal. symmetry. apply pend_ext; [reflexivity|]. intros; reflexivity.
+  - assert (Hc : cov_cl c a (tr ++ Conc.tag t es)) by (apply cov_cl_quiet; auto).
+    intros t' sv H. rewrite Hvs in H. apply (Hc t' sv H).
+  - now apply safe_cl_quiet.
+  - now apply kept_cl_quiet.
+  - intros t' H. destruct (Nat.eq_dec t' t) as [->|Hne].
+    + exfalso. apply (resp_last_same tr t [] (ev_det r)) in H. discriminate.
+    + unfold a'. rewrite view_upd_other by exact Hne. apply i_idle. apply (resp_last_other tr t' t es); [congruence|exact H].
+  - apply (retd_cl_ext g a tr _ i_retd).
+  - intros t' sv r' s H1 H2 H3 p Hp. rewrite Hvs in H1. destruct (Nat.eq_dec t' t) as [->|Hne].
+    + unfold a' in H2. rewrite view_upd_same in H2. discriminate.
+    + unfold a' in H2. rewrite view_upd_other in H2 by exact Hne.
+      apply (retd_scan_cl_ext g a tr t es i_retd_scan (fun e He0 => quiet_nosb e (Hq e He0)) t' sv r' s H1 H2 H3 p Hp).
+  - apply (pre_cl_nodispose tr t es i_pre). intros e p He0. apply quiet_not_dispose. auto.
+  - intros t' sv H. rewrite Hvs in H. eauto.
+  - apply (size_cl_transfer c g a tr g a' _ i_size); [apply le_n|intros p; apply cnt_le_app|intros; apply le_n|].
+    intros t' cl H. now rewrite Hvc.
+  - apply (noovf_cl_transfer c g tr g _ i_noovf); [apply le_n|intros p; apply cnt_le_app|].
+    intros p. rewrite cnt_app, cnt_overflow_quiet by exact Hq. lia.
+  - exact HX1.
+  - exact HX2.
+  - exact HX3.
+  - exact HX4.
+  - exact HX5.
 Qed.
